@@ -1,444 +1,1186 @@
-(* Outstation/StaticDbProofs.v — the static database answers a READ with an exact snapshot, whatever
-   the fragment boundaries.
+(* Outstation/EventBufferProofs.v — invariants of the event buffer model over ARBITRARY op lists.
 
-   Main results:
-     wf_reachable               the point maps stay in ascending index order under every operation
-     pending_ascending_existing the points a selection has to report are exactly the existing points
-                                in range, ascending, in the requested or configured (promoted) variation
-     select_copies_current      a selection freezes the CURRENT value of every point in range
-     write_splits_pending       one write emits a prefix of what is pending and leaves the rest pending
-     write_progress             if the next pending object fits an empty fragment, a write emits >= 1 object
-     snapshot                   for any series of budgets (each fitting every single object in an empty
-                                fragment, at least as many as pending objects) and ANY updates between the
-                                writes, the concatenation of the objects written is exactly what was
-                                pending after the selection: each point once, ascending, with the value
-                                at selection time
-     series_exactly_once        the same without updates *)
-From Dnp3V Require Import Base.Bytes Outstation.DbTypes Outstation.StaticDb.
+   Main results (all without bounds on the op list):
+     ids_unique_monotone                      ids handed out are exactly next, next+1, ...; the buffer is
+                                              sorted by id and every id is below `next`
+     counters_exact                           total / written counters = the counts over the records
+     capacity_respected                       #records of a type <= its configured maximum
+     class_bits_exact, no_underflow           unwritten_classes() = "a record of the class is not Written"
+     insert_overflow_discards_oldest_same_type
+     clear_written_releases_exactly_written
+     reset_unselects_all
+     write_oldest_first                       the records written are the longest prefix, in insertion
+                                              order, of the Selected ones that fits the writer
+     write_exact_time                         objects of CTO variations: absolute time = CTO + offset *)
+From Dnp3V Require Import Base.Bytes Outstation.DbTypes Outstation.EventBuffer.
 From Coq Require Import Sorting.Sorted.
 Open Scope N_scope.
 
 (* ---------------------------------------------------------------------------------------------- *)
-(* ascending maps *)
+(* operations and runs *)
 
-Definition pmap_sorted (m : pmap) : Prop := StronglySorted N.lt (map fst m).
-Definition sdb_wf (d : sdb) : Prop := forall t, pmap_sorted (sd_maps d t).
+Inductive eop :=
+| OpInsert (index : N) (k : eclass) (t : ptype) (m : meas) (dv : evar)
+| OpSelClass (c1 c2 c3 : bool) (lim : option N)
+| OpSelType (t : ptype) (v : option evar) (lim : option N)
+| OpWrite (budget : N)
+| OpClear
+| OpReset.
 
-Lemma sorted_cons_inv k (p : point) m : pmap_sorted ((k, p) :: m) ->
-  pmap_sorted m /\ Forall (fun kp => k < fst kp) m.
-Proof.
-  unfold pmap_sorted. cbn [map fst]. intros H. inversion H as [|? ? Hs Hall]; subst. split; [exact Hs|].
-  rewrite Forall_map in Hall. exact Hall.
-Qed.
-
-Lemma sorted_cons k (p : point) m : pmap_sorted m -> Forall (fun kp => k < fst kp) m -> pmap_sorted ((k, p) :: m).
-Proof.
-  unfold pmap_sorted. cbn [map fst]. intros Hs Hall. constructor; [exact Hs|]. rewrite Forall_map. exact Hall.
-Qed.
-
-Lemma pmap_insert_keys m i p : forall kp, In kp (fst (pmap_insert m i p)) -> fst kp = i \/ In kp m.
-Proof.
-  induction m as [|[k q] m IH]; intros kp H; cbn [pmap_insert fst] in H.
-  - destruct H as [<-|[]]. left; reflexivity.
-  - destruct (i <? k).
-    + cbn [fst] in H. destruct H as [<-|H]; [left; reflexivity|right; exact H].
-    + destruct (i =? k); [right; exact H|].
-      destruct (pmap_insert m i p) as [tl' ok]. cbn [fst] in *. destruct H as [<-|H]; [right; left; reflexivity|].
-      destruct (IH _ H) as [Hi|Hi]; [left; exact Hi|right; right; exact Hi].
-Qed.
-
-Lemma pmap_insert_sorted m i p : pmap_sorted m -> pmap_sorted (fst (pmap_insert m i p)).
-Proof.
-  induction m as [|[k q] m IH]; intros Hs; cbn [pmap_insert fst].
-  - apply sorted_cons; constructor.
-  - destruct (sorted_cons_inv _ _ _ Hs) as [Hs' Hall].
-    destruct (i <? k) eqn:Elt.
-    + cbn [fst]. apply N.ltb_lt in Elt. apply sorted_cons; [exact Hs|].
-      constructor; [exact Elt|]. eapply Forall_impl; [|exact Hall]. cbn. intros; lia.
-    + destruct (i =? k) eqn:Eeq; [exact Hs|]. apply N.ltb_ge in Elt. apply N.eqb_neq in Eeq.
-      pose proof (pmap_insert_keys m i p) as Hk. specialize (IH Hs').
-      destruct (pmap_insert m i p) as [tl' ok]. cbn [fst] in *.
-      apply sorted_cons; [exact IH|]. apply Forall_forall. intros kp Hkp.
-      destruct (Hk _ Hkp) as [Hi|Hi]; [lia|]. rewrite Forall_forall in Hall. apply Hall, Hi.
-Qed.
-
-Lemma pmap_remove_sub m i : forall kp, In kp (fst (pmap_remove m i)) -> In kp m.
-Proof.
-  induction m as [|[k q] m IH]; intros kp H; cbn [pmap_remove fst] in H; [exact H|].
-  destruct (k =? i); [right; exact H|].
-  destruct (pmap_remove m i) as [tl' ok]. cbn [fst] in *. destruct H as [<-|H]; [left; reflexivity|right; apply IH, H].
-Qed.
-
-Lemma pmap_remove_sorted m i : pmap_sorted m -> pmap_sorted (fst (pmap_remove m i)).
-Proof.
-  induction m as [|[k q] m IH]; intros Hs; cbn [pmap_remove fst]; [exact Hs|].
-  destruct (sorted_cons_inv _ _ _ Hs) as [Hs' Hall].
-  destruct (k =? i); [exact Hs'|].
-  pose proof (pmap_remove_sub m i) as Hk. specialize (IH Hs').
-  destruct (pmap_remove m i) as [tl' ok]. cbn [fst] in *.
-  apply sorted_cons; [exact IH|]. apply Forall_forall. intros kp Hkp.
-  rewrite Forall_forall in Hall. apply Hall, Hk, Hkp.
-Qed.
-
-Lemma pmap_update_keys m i f : map fst (pmap_update m i f) = map fst m.
-Proof.
-  induction m as [|[k q] m IH]; cbn [pmap_update map fst]; [reflexivity|].
-  destruct (k =? i); cbn [map fst]; [reflexivity|]. rewrite IH. reflexivity.
-Qed.
-
-Lemma pmap_select_keys m a b : map fst (pmap_select m a b) = map fst m.
-Proof.
-  unfold pmap_select. rewrite map_map. apply map_ext. intros kp. destruct (in_range a b kp); reflexivity.
-Qed.
-
-Lemma wf_set_map d t m : sdb_wf d -> pmap_sorted m -> sdb_wf (set_map d t m).
-Proof. intros Hwf Hm t'. cbn [set_map sd_maps]. destruct (ptype_eqb t' t); [exact Hm|apply Hwf]. Qed.
-
-Lemma wf_set_queue d q : sdb_wf d -> sdb_wf (set_queue d q).
-Proof. intros Hwf t. exact (Hwf t). Qed.
-
-Lemma wf_new ms c0 : sdb_wf (sdb_new ms c0).
-Proof. intro t. constructor. Qed.
-
-Lemma wf_add d t i cfg : sdb_wf d -> sdb_wf (fst (sdb_add d t i cfg)).
-Proof.
-  intros Hwf. unfold sdb_add. pose proof (pmap_insert_sorted (sd_maps d t) i
-    (mkPt (default_meas t) (default_meas t) (default_meas t) cfg) (Hwf t)) as H.
-  destruct (pmap_insert _ _ _) as [m ok]. cbn [fst] in *. destruct ok; [apply wf_set_map; assumption|exact Hwf].
-Qed.
-
-Lemma wf_remove d t i : sdb_wf d -> sdb_wf (fst (sdb_remove d t i)).
-Proof.
-  intros Hwf. unfold sdb_remove. pose proof (pmap_remove_sorted (sd_maps d t) i (Hwf t)) as H.
-  destruct (pmap_remove _ _) as [m ok]. cbn [fst] in *. destruct ok; [apply wf_set_map; assumption|exact Hwf].
-Qed.
-
-Lemma wf_update d t i v us mode : sdb_wf d -> sdb_wf (fst (fst (sdb_update d t i v us mode))).
-Proof.
-  intros Hwf. unfold sdb_update. destruct (pmap_get (sd_maps d t) i) as [p|]; cbn [fst]; [|exact Hwf].
-  apply wf_set_map; [exact Hwf|]. unfold pmap_sorted. rewrite pmap_update_keys. apply Hwf.
-Qed.
-
-Lemma wf_push d it : sdb_wf d -> sdb_wf (fst (sdb_push d it)).
-Proof. intros Hwf. unfold sdb_push. destruct (_ =? _); cbn [fst]; [exact Hwf|apply wf_set_queue; exact Hwf]. Qed.
-
-Lemma wf_select_type d t v r : sdb_wf d -> sdb_wf (fst (sdb_select_type d t v r)).
-Proof.
-  intros Hwf. unfold sdb_select_type.
-  destruct (match r with Some r0 => Some r0 | None => pmap_full_range (sd_maps d t) end) as [[a b]|]; [|exact Hwf].
-  apply wf_push, wf_set_map; [exact Hwf|]. unfold pmap_sorted. rewrite pmap_select_keys. apply Hwf.
-Qed.
-
-Lemma wf_select d h : sdb_wf d -> sdb_wf (fst (sdb_select d h)).
-Proof.
-  intros Hwf. destruct h as [|t v r]; cbn [sdb_select]; [|apply wf_select_type; exact Hwf].
-  assert (H : forall ts acc, sdb_wf (fst acc) -> sdb_wf (fst (fold_left sdb_select_class0_type ts acc))).
-  { induction ts as [|t ts IH]; intros acc Hacc; cbn [fold_left]; [exact Hacc|]. apply IH.
-    destruct acc as [d0 iin]. unfold sdb_select_class0_type. cbn [fst] in Hacc.
-    destruct (sd_c0 d0 t); [|exact Hacc].
-    pose proof (wf_select_type d0 t None None Hacc) as H. destruct (sdb_select_type d0 t None None) as [d' i]. exact H. }
-  apply H. exact Hwf.
-Qed.
-
-(* ---------------------------------------------------------------------------------------------- *)
-(* ranges of an ascending map *)
-
-Lemma range_resume m a b : pmap_sorted m -> forall pre x post,
-  pmap_range m a b = pre ++ x :: post -> pmap_range m (fst x) b = x :: post.
-Proof.
-  unfold pmap_range. induction m as [|[k p] m IH]; intros Hs pre x post H; cbn [filter] in H.
-  - destruct pre; discriminate.
-  - destruct (sorted_cons_inv _ _ _ Hs) as [Hs' Hall]. cbn [filter].
-    assert (Hin : In x m -> in_range (fst x) b (k, p) = false).
-    { intros Hx. rewrite Forall_forall in Hall. specialize (Hall _ Hx). unfold in_range. cbn [fst].
-      apply andb_false_iff. left. apply N.leb_gt. exact Hall. }
-    destruct (in_range a b (k, p)) eqn:Er.
-    + destruct pre as [|y pre]; cbn [app] in H.
-      * injection H as <- <-. unfold in_range at 1. cbn [fst]. rewrite N.leb_refl. cbn [andb].
-        unfold in_range in Er. cbn [fst] in Er. apply andb_prop in Er. destruct Er as [Ea Eb]. rewrite Eb.
-        f_equal. apply filter_ext_in. intros kp Hkp. rewrite Forall_forall in Hall. specialize (Hall _ Hkp).
-        unfold in_range. apply N.leb_le in Ea. f_equal. rewrite !(proj2 (N.leb_le _ _)); [reflexivity|lia|lia].
-      * injection H as <- H. rewrite Hin; [apply (IH Hs' _ _ _ H)|].
-        assert (Hx : In x (filter (in_range a b) m)) by (rewrite H; apply in_or_app; right; left; reflexivity).
-        apply filter_In in Hx. apply Hx.
-    + rewrite Hin; [apply (IH Hs' _ _ _ H)|].
-      assert (Hx : In x (filter (in_range a b) m)) by (rewrite H; apply in_or_app; right; left; reflexivity).
-      apply filter_In in Hx. apply Hx.
-Qed.
-
-(* ---------------------------------------------------------------------------------------------- *)
-(* the range writer emits the points in order *)
-
-Definition rw_ok (w : rwriter) : Prop :=
-  match rw_state w with RwHeader _ _ _ => rw_out w <> [] | _ => True end.
-
-Lemma shdrs_items_cons h out : shdrs_items (h :: out) = shdrs_items out ++ rev (sh_items h).
-Proof. unfold shdrs_items. cbn [rev]. rewrite map_app, concat_app. cbn [map concat]. rewrite app_nil_r. reflexivity. Qed.
-
-Lemma shdrs_items_push out it : out <> [] -> shdrs_items (push_item out it) = shdrs_items out ++ [it].
-Proof.
-  destruct out as [|h tl]; [contradiction|]. intros _. cbn [push_item].
-  rewrite !shdrs_items_cons. cbn [sh_items rev]. rewrite app_assoc. reflexivity.
-Qed.
-
-Lemma rw_start_spec w it w' : rw_start w it = Some w' ->
-  shdrs_items (rw_out w') = shdrs_items (rw_out w) ++ [it] /\ rw_ok w' /\ rw_rem w' <= rw_rem w.
-Proof.
-  unfold rw_start. destruct (_ <=? rw_rem w) eqn:E; [|discriminate]. intros H. injection H as <-.
-  cbn [rw_out rw_rem]. rewrite shdrs_items_cons. repeat split; [unfold rw_ok; cbn; discriminate|lia].
-Qed.
-
-Lemma rw_try_spec w it w' : rw_ok w -> rw_try w it = Some w' ->
-  shdrs_items (rw_out w') = shdrs_items (rw_out w) ++ [it] /\ rw_ok w' /\ rw_rem w' <= rw_rem w.
-Proof.
-  intros Hok. unfold rw_try. unfold rw_ok in Hok.
-  destruct (rw_state w) as [|gv last k|]; [apply rw_start_spec| |discriminate].
-  destruct (gv_eqb gv (si_gv it) && is_consecutive last (si_index it)); [|apply rw_start_spec].
-  destruct (next_need k (si_body it)) as [need k'].
-  destruct (need <=? rw_rem w); [|discriminate]. intros H. injection H as <-. cbn [rw_out rw_rem rw_state].
-  repeat split; [apply shdrs_items_push; exact Hok| |lia].
-  unfold rw_ok. cbn [rw_state rw_out]. destruct (rw_out w); [contradiction|discriminate].
-Qed.
-
-Lemma range_loop_spec {A} (f : A -> sitem) pts : forall w w' res,
-  rw_ok w -> range_loop (map f pts) w = (w', res) ->
-  rw_ok w' /\ rw_rem w' <= rw_rem w /\
-  match res with
-  | None => shdrs_items (rw_out w') = shdrs_items (rw_out w) ++ map f pts
-  | Some i => exists pre x post, pts = pre ++ x :: post /\ si_index (f x) = i
-                                 /\ shdrs_items (rw_out w') = shdrs_items (rw_out w) ++ map f pre
-                                 /\ rw_try w' (f x) = None
-  end.
-Proof.
-  induction pts as [|x pts IH]; intros w w' res Hok H; cbn [map range_loop] in H.
-  - injection H as <- <-. rewrite app_nil_r. repeat split; [exact Hok|lia].
-  - destruct (rw_try w (f x)) as [w1|] eqn:Et.
-    + destruct (rw_try_spec _ _ _ Hok Et) as (H1 & Hok1 & Hr1).
-      destruct (IH _ _ _ Hok1 H) as (Hok' & Hr & Hres). repeat split; [exact Hok'|lia|].
-      destruct res as [i|].
-      * destruct Hres as (pre & y & post & -> & Hi & Hit & Hno).
-        exists (x :: pre), y, post. repeat split; [exact Hi| |exact Hno].
-        rewrite Hit, H1. cbn [map]. rewrite <- app_assoc. reflexivity.
-      * rewrite Hres, H1. cbn [map]. rewrite <- app_assoc. reflexivity.
-    + injection H as <- <-. repeat split; [exact Hok|lia|].
-      exists [], x, pts. rewrite app_nil_r. repeat split; exact Et.
-Qed.
-
-(* ---------------------------------------------------------------------------------------------- *)
-(* one write: a prefix of what is pending goes out, the rest stays pending *)
-
-Definition pending_of (maps : ptype -> pmap) (q : list qitem) : list sitem :=
-  concat (map (qitem_items maps) q).
-
-Lemma point_item_index t var kp : si_index (point_item t var kp) = fst kp.
-Proof. reflexivity. Qed.
-
-Lemma queue_loop_spec maps : (forall t, pmap_sorted (maps t)) ->
-  forall q rem out q' rem' out' c,
-  queue_loop maps q rem out = (q', rem', out', c) ->
-  exists W, shdrs_items out' = shdrs_items out ++ W
-            /\ W ++ pending_of maps q' = pending_of maps q
-            /\ rem' <= rem
-            /\ (c = true -> q' = [])
-            /\ (c = false -> pending_of maps q' <> []).
-Proof.
-  intros Hwf. induction q as [|it q IH]; intros rem out q' rem' out' c H; cbn [queue_loop] in H.
-  - injection H as <- <- <- <-. exists []. rewrite app_nil_r. repeat split; [lia|intros; discriminate].
-  - unfold qitem_items in H.
-    destruct (range_loop (map (point_item (q_type it) (q_var it))
-                              (pmap_range (maps (q_type it)) (q_start it) (q_stop it)))
-                         (mkRw rem RwStart out)) as [w res] eqn:Er.
-    assert (Hok : rw_ok (mkRw rem RwStart out)) by exact I.
-    destruct (range_loop_spec _ _ _ _ _ Hok Er) as (_ & Hrem & Hres). cbn [rw_rem rw_out] in *.
-    destruct res as [i|].
-    + injection H as <- <- <- <-.
-      destruct Hres as (pre & x & post & Hpts & Hi & Hit & _).
-      rewrite point_item_index in Hi. subst i.
-      assert (Hres : qitem_items maps (mkQ (q_type it) (fst x) (q_stop it) (q_var it))
-                     = map (point_item (q_type it) (q_var it)) (x :: post)).
-      { unfold qitem_items. cbn [q_type q_start q_stop q_var].
-        rewrite (range_resume _ _ _ (Hwf (q_type it)) _ _ _ Hpts). reflexivity. }
-      exists (map (point_item (q_type it) (q_var it)) pre). repeat split; [exact Hit| |exact Hrem|discriminate|].
-      * unfold pending_of. cbn [map concat]. rewrite Hres, app_assoc. f_equal.
-        unfold qitem_items. rewrite Hpts, map_app. reflexivity.
-      * intros _. unfold pending_of. cbn [map concat]. rewrite Hres. cbn [map app]. discriminate.
-    + destruct (IH _ _ _ _ _ _ H) as (W & H1 & H2 & H3 & H4 & H5).
-      exists (map (point_item (q_type it) (q_var it)) (pmap_range (maps (q_type it)) (q_start it) (q_stop it)) ++ W).
-      repeat split; [rewrite H1, Hres, app_assoc; reflexivity| |lia|exact H4|exact H5].
-      unfold pending_of at 2. cbn [map concat]. fold (pending_of maps q). rewrite <- H2, app_assoc. reflexivity.
-Qed.
-
-Lemma sdb_pending_eq d : sdb_pending d = pending_of (sd_maps d) (sd_queue d).
-Proof. reflexivity. Qed.
-
-(* what one write does to the series *)
-Theorem write_splits_pending : forall d budget,
-  sdb_wf d ->
-  let d' := fst (sdb_write_hdrs d budget) in
-  let out := fst (fst (snd (sdb_write_hdrs d budget))) in
-  let complete := snd (snd (sdb_write_hdrs d budget)) in
-  shdrs_items out ++ sdb_pending d' = sdb_pending d
-  /\ sd_maps d' = sd_maps d
-  /\ (complete = true -> sd_queue d' = [])
-  /\ (complete = false -> sdb_pending d' <> []).
-Proof.
-  intros d budget Hwf. unfold sdb_write_hdrs.
-  destruct (queue_loop (sd_maps d) (sd_queue d) budget []) as [[[q rem] out] c] eqn:Eq. cbn [fst snd].
-  destruct (queue_loop_spec _ Hwf _ _ _ _ _ _ _ Eq) as (W & H1 & H2 & _ & H4 & H5). cbn in H1.
-  rewrite H1. repeat split; [exact H2|exact H4|exact H5].
-Qed.
-
-(* ---------------------------------------------------------------------------------------------- *)
-(* progress *)
-
-Definition item_fits (budget : N) (it : sitem) : Prop := 7 + body_first_len (si_body it) <= budget.
-
-Lemma queue_loop_progress maps : forall q budget out q' rem' out' c x rest,
-  pending_of maps q = x :: rest -> item_fits budget x ->
-  queue_loop maps q budget out = (q', rem', out', c) ->
-  exists W', shdrs_items out' = shdrs_items out ++ x :: W'.
-Proof.
-  induction q as [|it q IH]; intros budget out q' rem' out' c x rest Hp Hfit H; [discriminate|].
-  cbn [queue_loop] in H. unfold pending_of in Hp. cbn [map concat] in Hp.
-  destruct (qitem_items maps it) as [|y items] eqn:Ei.
-  - cbn [range_loop app] in H, Hp. cbn [rw_rem rw_out] in H. eapply IH; eassumption.
-  - cbn [app] in Hp. injection Hp as -> _. cbn [range_loop] in H.
-    assert (Hs : rw_try (mkRw budget RwStart out) x = Some (mkRw (budget - (7 + body_first_len (si_body x)))
-                   (RwHeader (si_gv x) (si_index x) (body_kstate (si_body x))) (mkSh (si_gv x) [x] :: out))).
-    { unfold rw_try, rw_start. cbn [rw_state rw_rem rw_out]. unfold item_fits in Hfit.
-      rewrite (proj2 (N.leb_le _ _) Hfit). reflexivity. }
-    rewrite Hs in H.
-    destruct (range_loop items _) as [w res] eqn:Er.
-    assert (Hw : exists W1, shdrs_items (rw_out w) = shdrs_items out ++ x :: W1).
-    { assert (Hok : rw_ok (mkRw (budget - (7 + body_first_len (si_body x)))
-                   (RwHeader (si_gv x) (si_index x) (body_kstate (si_body x))) (mkSh (si_gv x) [x] :: out)))
-        by (unfold rw_ok; cbn; discriminate).
-      rewrite <- (map_id items) in Er.
-      destruct (range_loop_spec _ _ _ _ _ Hok Er) as (_ & _ & Hres). cbn [rw_out] in Hres.
-      rewrite shdrs_items_cons in Hres. cbn [sh_items rev app] in Hres.
-      destruct res as [i|].
-      - destruct Hres as (pre & z & post & _ & _ & Hit & _). exists (map (fun a => a) pre).
-        rewrite Hit, <- app_assoc. reflexivity.
-      - exists (map (fun a => a) items). rewrite Hres, <- app_assoc. reflexivity. }
-    destruct Hw as [W1 Hw1]. destruct res as [i|].
-    + injection H as <- <- <- <-. exists W1. exact Hw1.
-    + destruct (queue_loop maps q (rw_rem w) (rw_out w)) as [[[q2 r2] o2] c2] eqn:Eq.
-      injection H as <- <- <- <-.
-      (* the rest of the queue only appends *)
-      assert (Happ : exists W2, shdrs_items o2 = shdrs_items (rw_out w) ++ W2).
-      { clear - Eq. revert Eq. generalize (rw_rem w) (rw_out w). revert q2 r2 o2 c2.
-        induction q as [|it2 q IHq]; intros q2 r2 o2 c2 rem0 out0 Eq; cbn [queue_loop] in Eq.
-        - injection Eq as <- <- <- <-. exists []. rewrite app_nil_r. reflexivity.
-        - destruct (range_loop (qitem_items maps it2) (mkRw rem0 RwStart out0)) as [w2 res2] eqn:Er2.
-          rewrite <- (map_id (qitem_items maps it2)) in Er2.
-          assert (Hok : rw_ok (mkRw rem0 RwStart out0)) by exact I.
-          destruct (range_loop_spec _ _ _ _ _ Hok Er2) as (_ & _ & Hres2). cbn [rw_out] in Hres2.
-          destruct res2 as [i2|].
-          + injection Eq as <- <- <- <-. destruct Hres2 as (pre & z & post & _ & _ & Hit & _).
-            eexists. exact Hit.
-          + destruct (IHq _ _ _ _ _ _ Eq) as [W3 H3]. eexists. rewrite H3, Hres2, <- app_assoc. reflexivity. }
-      destruct Happ as [W2 H2]. exists (W1 ++ W2). rewrite H2, Hw1, <- app_assoc. reflexivity.
-Qed.
-
-(* if the first pending object fits an empty fragment, the write emits it *)
-Theorem write_progress : forall d budget x rest,
-  sdb_pending d = x :: rest -> item_fits budget x ->
-  exists W', shdrs_items (fst (fst (snd (sdb_write_hdrs d budget)))) = x :: W'.
-Proof.
-  intros d budget x rest Hp Hfit. unfold sdb_write_hdrs.
-  destruct (queue_loop (sd_maps d) (sd_queue d) budget []) as [[[q rem] out] c] eqn:Eq. cbn [fst snd].
-  destruct (queue_loop_progress _ _ _ _ _ _ _ _ _ _ Hp Hfit Eq) as [W' H]. exists W'. exact H.
-Qed.
-
-(* ---------------------------------------------------------------------------------------------- *)
-(* updates do not touch what is pending *)
-
-Lemma pmap_update_items t var a b m i p q :
-  pmap_get m i = Some p -> p_selected q = p_selected p -> p_config q = p_config p ->
-  map (point_item t var) (pmap_range (pmap_update m i (fun _ => q)) a b)
-  = map (point_item t var) (pmap_range m a b).
-Proof.
-  intros Hg Hs Hc. unfold pmap_range. induction m as [|[k x] m IH]; cbn [pmap_update pmap_get] in *; [reflexivity|].
-  destruct (k =? i) eqn:E.
-  - injection Hg as ->. cbn [filter]. change (in_range a b (k, q)) with (in_range a b (k, p)).
-    destruct (in_range a b (k, p)); [|reflexivity]. cbn [map]. f_equal.
-    unfold point_item. cbn [fst snd]. rewrite Hs, Hc. reflexivity.
-  - cbn [filter]. destruct (in_range a b (k, x)); [cbn [map]; f_equal|]; apply IH; exact Hg.
-Qed.
-
-Record supd := mkUpd { u_type : ptype; u_index : N; u_meas : meas; u_static : bool; u_mode : event_mode }.
-
-Definition sdb_apply_upd (d : sdb) (u : supd) : sdb :=
-  fst (fst (sdb_update d (u_type u) (u_index u) (u_meas u) (u_static u) (u_mode u))).
-
-Lemma update_keeps_pending d u :
-  sd_queue (sdb_apply_upd d u) = sd_queue d
-  /\ forall q, qitem_items (sd_maps (sdb_apply_upd d u)) q = qitem_items (sd_maps d) q.
-Proof.
-  unfold sdb_apply_upd, sdb_update. destruct (pmap_get (sd_maps d (u_type u)) (u_index u)) as [p|] eqn:Eg; cbn [fst].
-  - split; [reflexivity|]. intro q. unfold qitem_items. cbn [set_map sd_maps].
-    destruct (ptype_eqb (q_type q) (u_type u)) eqn:Et; [|reflexivity].
-    apply ptype_eqb_eq in Et. rewrite Et. apply (pmap_update_items _ _ _ _ _ _ p); [exact Eg|reflexivity|reflexivity].
-  - split; reflexivity.
-Qed.
-
-Lemma updates_keep_pending us : forall d,
-  sdb_pending (fold_left sdb_apply_upd us d) = sdb_pending d.
-Proof.
-  induction us as [|u us IH]; intro d; cbn [fold_left]; [reflexivity|]. rewrite IH.
-  destruct (update_keeps_pending d u) as [Hq Hi]. unfold sdb_pending. rewrite Hq. f_equal.
-  apply map_ext. exact Hi.
-Qed.
-
-Lemma updates_keep_wf us : forall d, sdb_wf d -> sdb_wf (fold_left sdb_apply_upd us d).
-Proof.
-  induction us as [|u us IH]; intros d Hwf; cbn [fold_left]; [exact Hwf|]. apply IH. apply wf_update; exact Hwf.
-Qed.
-
-(* ---------------------------------------------------------------------------------------------- *)
-(* the series *)
-
-(* a series of fragments: before every write an arbitrary list of updates is applied *)
-Fixpoint sdb_series (d : sdb) (steps : list (list supd * N)) : list (list sitem) * sdb :=
-  match steps with
-  | [] => ([], d)
-  | (us, b) :: tl =>
-    let d1 := fold_left sdb_apply_upd us d in
-    let r := sdb_write_hdrs d1 b in
-    let '(fs, d3) := sdb_series (fst r) tl in
-    (shdrs_items (fst (fst (snd r))) :: fs, d3)
+Definition ebuf_step (b : ebuf) (op : eop) : ebuf :=
+  match op with
+  | OpInsert i k t m dv => fst (ebuf_insert b i k t m dv)
+  | OpSelClass c1 c2 c3 lim => fst (ebuf_select_by_class b c1 c2 c3 lim)
+  | OpSelType t v lim => fst (ebuf_select_by_type b t v lim)
+  | OpWrite budget => fst (ebuf_write_hdrs b budget)
+  | OpClear => fst (ebuf_clear_written b)
+  | OpReset => ebuf_reset b
   end.
 
-(* every single pending object fits an empty fragment of every budget of the series (F11: without
-   this hypothesis an object larger than an empty fragment is never written, and the series makes no
-   progress) *)
-Definition fits_empty (d : sdb) (budgets : list N) : Prop :=
-  Forall (fun b => Forall (item_fits b) (sdb_pending d)) budgets.
+Definition ebuf_run_from (b : ebuf) (ops : list eop) : ebuf := fold_left ebuf_step ops b.
+Definition ebuf_run (cfg : ebcfg) (ops : list eop) : ebuf := ebuf_run_from (ebuf_new cfg) ops.
 
-Lemma Forall_app_r {A} (P : A -> Prop) l1 l2 : Forall P (l1 ++ l2) -> Forall P l2.
-Proof. intros H. apply Forall_app in H. apply H. Qed.
+(* ---------------------------------------------------------------------------------------------- *)
+(* counting *)
 
+Fixpoint countN (f : erec -> bool) (l : list erec) : N :=
+  match l with
+  | [] => 0
+  | r :: tl => (if f r then 1 else 0) + countN f tl
+  end.
 
-Theorem snapshot : forall steps d,
-  sdb_wf d ->
-  fits_empty d (map snd steps) ->
-  (length (sdb_pending d) <= length steps)%nat ->
-  concat (fst (sdb_series d steps)) = sdb_pending d
-  /\ (steps <> [] -> sd_queue (snd (sdb_series d steps)) = []).
+Definition in_class (k : eclass) (r : erec) : bool := eclass_eqb (r_class r) k.
+Definition in_type (t : ptype) (r : erec) : bool := ptype_eqb (r_type r) t.
+Definition wclass (k : eclass) (r : erec) : bool := in_class k r && is_written r.
+Definition wtype (t : ptype) (r : erec) : bool := in_type t r && is_written r.
+
+Lemma countN_app f l1 l2 : countN f (l1 ++ l2) = countN f l1 + countN f l2.
+Proof. induction l1 as [|r l1 IH]; cbn [countN app]; [reflexivity|]. rewrite IH. lia. Qed.
+
+Lemma countN_ext f g l : (forall r, In r l -> f r = g r) -> countN f l = countN g l.
 Proof.
-  induction steps as [|[us b] steps IH]; intros d Hwf Hfit Hlen.
-  - cbn [sdb_series fst snd concat]. cbn [length] in Hlen.
-    destruct (sdb_pending d) eqn:Ep; [|cbn in Hlen; lia]. split; [reflexivity|intro H; contradiction].
-  - cbn [sdb_series]. set (d1 := fold_left sdb_apply_upd us d).
-    assert (Hp1 : sdb_pending d1 = sdb_pending d) by apply updates_keep_pending.
-    assert (Hwf1 : sdb_wf d1) by (apply updates_keep_wf; exact Hwf).
-    destruct (write_splits_pending d1 b Hwf1) as (Hsplit & Hmaps & Hc1 & Hc2).
-    set (r := sdb_write_hdrs d1 b) in *.
-    assert (Hwf2 : sdb_wf (fst r)) by (intro t; rewrite Hmaps; apply Hwf1).
-    cbn [map snd] in Hfit. unfold fits_empty in Hfit. inversion Hfit as [|? ? Hb Hrest]; subst.
-    assert (Hshort : (length (sdb_pending (fst r)) <= length steps)%nat
-                     /\ (sdb_pending d1 <> [] -> (length (sdb_pending (fst r)) < length (sdb_pending d1))%nat)).
-    { destruct (sdb_pending d1) as [|x rest] eqn:Ep.
-      - destruct (shdrs_items (fst (fst (snd r)))); [|discriminate]. cbn [app] in Hsplit. rewrite Hsplit.
-        split; [cbn; lia|intro H; contradiction].
+  induction l as [|r l IH]; intros H; cbn [countN]; [reflexivity|].
+  rewrite (H r (or_introl eq_refl)), IH; [reflexivity|]. intros x Hx. apply H. right; exact Hx.
+Qed.
+
+Lemma countN_Forall2 f (l l' : list erec) :
+  Forall2 (fun r r' => f r = f r') l l' -> countN f l = countN f l'.
+Proof. induction 1 as [|r r' l l' Hr _ IH]; cbn [countN]; [reflexivity|]. rewrite Hr, IH. reflexivity. Qed.
+
+Lemma countN_zero f l : (forall r, In r l -> f r = false) -> countN f l = 0.
+Proof.
+  induction l as [|r l IH]; intros H; cbn [countN]; [reflexivity|].
+  rewrite (H r (or_introl eq_refl)), IH; [reflexivity|]. intros x Hx; apply H; right; exact Hx.
+Qed.
+
+Lemma countN_split f g l :
+  countN f l = countN (fun r => f r && g r) l + countN f (filter (fun r => negb (g r)) l).
+Proof.
+  induction l as [|r l IH]; cbn [countN filter]; [reflexivity|].
+  destruct (g r); cbn [negb countN]; rewrite IH; destruct (f r); cbn [andb]; lia.
+Qed.
+
+Lemma countN_filter_false f g l :
+  (forall r, g r = true -> f r = false) -> countN f (filter g l) = 0.
+Proof.
+  intros H. apply countN_zero. intros r Hr. apply filter_In in Hr. apply H, Hr.
+Qed.
+
+Lemma countN_le f g l : (forall r, f r = true -> g r = true) -> countN f l <= countN g l.
+Proof.
+  intros H. induction l as [|r l IH]; cbn [countN]; [lia|].
+  destruct (f r) eqn:Ef; [rewrite (H r Ef)|destruct (g r)]; lia.
+Qed.
+
+(* ---------------------------------------------------------------------------------------------- *)
+(* counter algebra *)
+
+Lemma cnt_class_map_class f k c k' :
+  cnt_class (cnt_map_class f k c) k' = if eclass_eqb k k' then f (cnt_class c k') else cnt_class c k'.
+Proof. destruct k, k'; reflexivity. Qed.
+
+Lemma cnt_class_map_type f t c k : cnt_class (cnt_map_type f t c) k = cnt_class c k.
+Proof. destruct t, k; reflexivity. Qed.
+
+Lemma cnt_type_map_type f t c t' :
+  cnt_type (cnt_map_type f t c) t' = if ptype_eqb t t' then f (cnt_type c t') else cnt_type c t'.
+Proof. destruct t, t'; reflexivity. Qed.
+
+Lemma cnt_type_map_class f k c t : cnt_type (cnt_map_class f k c) t = cnt_type c t.
+Proof. destruct k, t; reflexivity. Qed.
+
+Lemma cnt_class_inc k t c k' :
+  cnt_class (cnt_inc k t c) k' = cnt_class c k' + (if eclass_eqb k k' then 1 else 0).
+Proof. unfold cnt_inc. rewrite cnt_class_map_class, cnt_class_map_type. destruct (eclass_eqb k k'); lia. Qed.
+
+Lemma cnt_type_inc k t c t' :
+  cnt_type (cnt_inc k t c) t' = cnt_type c t' + (if ptype_eqb t t' then 1 else 0).
+Proof. unfold cnt_inc. rewrite cnt_type_map_class, cnt_type_map_type. destruct (ptype_eqb t t'); lia. Qed.
+
+Lemma cnt_class_dec k t c k' :
+  cnt_class (cnt_dec k t c) k' = cnt_class c k' - (if eclass_eqb k k' then 1 else 0).
+Proof. unfold cnt_dec. rewrite cnt_class_map_class, cnt_class_map_type. destruct (eclass_eqb k k'); lia. Qed.
+
+Lemma cnt_type_dec k t c t' :
+  cnt_type (cnt_dec k t c) t' = cnt_type c t' - (if ptype_eqb t t' then 1 else 0).
+Proof. unfold cnt_dec. rewrite cnt_type_map_class, cnt_type_map_type. destruct (ptype_eqb t t'); lia. Qed.
+
+Lemma cnt_class_zero k : cnt_class cnt_zero k = 0.
+Proof. destruct k; reflexivity. Qed.
+Lemma cnt_type_zero t : cnt_type cnt_zero t = 0.
+Proof. destruct t; reflexivity. Qed.
+
+Lemma eclass_eqb_sym a b : eclass_eqb a b = eclass_eqb b a.
+Proof. destruct a, b; reflexivity. Qed.
+Lemma ptype_eqb_sym a b : ptype_eqb a b = ptype_eqb b a.
+Proof. destruct a, b; reflexivity. Qed.
+
+(* ---------------------------------------------------------------------------------------------- *)
+(* the invariant *)
+
+Definition id_lt (a b : erec) : Prop := r_id a < r_id b.
+
+Record ebuf_inv (b : ebuf) : Prop := mkInv {
+  inv_total_class : forall k, cnt_class (eb_total b) k = countN (in_class k) (eb_events b);
+  inv_total_type : forall t, cnt_type (eb_total b) t = countN (in_type t) (eb_events b);
+  inv_written_class : forall k, cnt_class (eb_written b) k = countN (wclass k) (eb_events b);
+  inv_written_type : forall t, cnt_type (eb_written b) t = countN (wtype t) (eb_events b);
+  inv_cap : forall t, countN (in_type t) (eb_events b) <= cfg_max (eb_cfg b) t;
+  inv_sorted : StronglySorted id_lt (eb_events b);
+  inv_below : Forall (fun r => r_id r < eb_next b) (eb_events b)
+}.
+
+(* two records that differ at most in state and selected variation *)
+Definition core_eq (r r' : erec) : Prop :=
+  r_id r = r_id r' /\ r_index r = r_index r' /\ r_class r = r_class r' /\ r_type r = r_type r'
+  /\ r_meas r = r_meas r' /\ r_dvar r = r_dvar r'.
+
+Lemma core_eq_refl r : core_eq r r.
+Proof. repeat split. Qed.
+
+Lemma core_eq_set_state r r' s : core_eq r r' -> core_eq r (set_state r' s).
+Proof. intros H. exact H. Qed.
+
+Lemma core_eq_set_svar r r' v : core_eq r r' -> core_eq r (set_svar r' v).
+Proof. intros H. exact H. Qed.
+
+
+Lemma Forall2_refl {A} (R : A -> A -> Prop) l : (forall x, R x x) -> Forall2 R l l.
+Proof. intros H. induction l; constructor; auto. Qed.
+
+Lemma Forall2_impl {A B} (P Q : A -> B -> Prop) l l' :
+  (forall a b, P a b -> Q a b) -> Forall2 P l l' -> Forall2 Q l l'.
+Proof. intros H. induction 1; constructor; auto. Qed.
+
+Lemma core_in_class k l l' : Forall2 core_eq l l' -> countN (in_class k) l = countN (in_class k) l'.
+Proof.
+  intros H. apply countN_Forall2. eapply Forall2_impl; [|exact H].
+  intros r r' (_ & _ & Hc & _). unfold in_class. rewrite Hc. reflexivity.
+Qed.
+
+Lemma core_in_type t l l' : Forall2 core_eq l l' -> countN (in_type t) l = countN (in_type t) l'.
+Proof.
+  intros H. apply countN_Forall2. eapply Forall2_impl; [|exact H].
+  intros r r' (_ & _ & _ & Ht & _). unfold in_type. rewrite Ht. reflexivity.
+Qed.
+
+Lemma core_sorted l l' : Forall2 core_eq l l' -> StronglySorted id_lt l -> StronglySorted id_lt l'.
+Proof.
+  induction 1 as [|r r' l l' Hr Hl IH]; intros Hs; [constructor|].
+  inversion Hs as [|? ? Hs' Hall]; subst. constructor; [apply IH; exact Hs'|].
+  clear IH Hs Hs'. induction Hl as [|x x' l l' Hx _ IH]; [constructor|].
+  inversion Hall; subst. constructor; [|apply IH; assumption].
+  unfold id_lt in *. destruct Hr as (Hr & _), Hx as (Hx & _). lia.
+Qed.
+
+Lemma core_below n l l' : Forall2 core_eq l l' ->
+  Forall (fun r => r_id r < n) l -> Forall (fun r => r_id r < n) l'.
+Proof.
+  induction 1 as [|r r' l l' Hr _ IH]; intros Hf; [constructor|].
+  inversion Hf; subst. constructor; [destruct Hr as (Hr & _); lia|apply IH; assumption].
+Qed.
+
+(* ---------------------------------------------------------------------------------------------- *)
+(* sortedness helpers *)
+
+Lemma sorted_app_last l x :
+  StronglySorted id_lt l -> Forall (fun r => id_lt r x) l -> StronglySorted id_lt (l ++ [x]).
+Proof.
+  induction l as [|a l IH]; intros Hs Hf; cbn [app]; [repeat constructor|].
+  inversion Hs; subst. inversion Hf; subst. constructor; [apply IH; assumption|].
+  apply Forall_app. split; [assumption|constructor; [assumption|constructor]].
+Qed.
+
+Lemma sorted_remove_mid pre x post :
+  StronglySorted id_lt (pre ++ x :: post) -> StronglySorted id_lt (pre ++ post).
+Proof.
+  induction pre as [|a pre IH]; cbn [app]; intros Hs.
+  - inversion Hs; assumption.
+  - inversion Hs as [|? ? Hs' Hall]; subst. constructor; [apply IH; exact Hs'|].
+    apply Forall_app in Hall. destruct Hall as [H1 H2]. inversion H2; subst.
+    apply Forall_app. split; assumption.
+Qed.
+
+Lemma sorted_filter f l : StronglySorted id_lt l -> StronglySorted id_lt (filter f l).
+Proof.
+  induction l as [|a l IH]; intros Hs; cbn [filter]; [constructor|].
+  inversion Hs as [|? ? Hs' Hall]; subst.
+  destruct (f a); [|apply IH; exact Hs'].
+  constructor; [apply IH; exact Hs'|].
+  apply Forall_forall. intros x Hx. apply filter_In in Hx.
+  rewrite Forall_forall in Hall. apply Hall, Hx.
+Qed.
+
+Lemma Forall_remove_mid {A} (P : A -> Prop) pre x post :
+  Forall P (pre ++ x :: post) -> Forall P (pre ++ post).
+Proof.
+  intros H. apply Forall_app in H. destruct H as [H1 H2]. inversion H2; subst.
+  apply Forall_app; split; assumption.
+Qed.
+
+(* ---------------------------------------------------------------------------------------------- *)
+(* insert *)
+
+Lemma remove_first_type_some t l old rest :
+  remove_first_type t l = Some (old, rest) ->
+  exists pre post, l = pre ++ old :: post /\ rest = pre ++ post /\ r_type old = t
+                   /\ Forall (fun r => in_type t r = false) pre.
+Proof.
+  revert old rest. induction l as [|r l IH]; intros old rest H; cbn [remove_first_type] in H; [discriminate|].
+  destruct (ptype_eqb (r_type r) t) eqn:Et.
+  - injection H as H1 H2; subst old rest. exists [], l. repeat split; [apply ptype_eqb_eq; exact Et|constructor].
+  - destruct (remove_first_type t l) as [[x tl']|] eqn:Er; [|discriminate].
+    injection H as H1 H2; subst old rest. destruct (IH _ _ eq_refl) as (pre & post & -> & -> & Ht & Hpre).
+    exists (r :: pre), post. repeat split; [exact Ht|constructor; [exact Et|exact Hpre]].
+Qed.
+
+Lemma remove_first_type_none t l :
+  remove_first_type t l = None -> countN (in_type t) l = 0.
+Proof.
+  induction l as [|r l IH]; intros H; cbn [remove_first_type countN] in *; [reflexivity|].
+  unfold in_type at 1. destruct (ptype_eqb (r_type r) t); [discriminate|].
+  destruct (remove_first_type t l) as [[x tl']|]; [discriminate|]. rewrite IH; reflexivity.
+Qed.
+
+Lemma countN_mid f pre x post :
+  countN f (pre ++ x :: post) = countN f (pre ++ post) + (if f x then 1 else 0).
+Proof. rewrite !countN_app. cbn [countN]. lia. Qed.
+
+Definition new_rec (b : ebuf) (index : N) (k : eclass) (t : ptype) (m : meas) (dv : evar) : erec :=
+  mkRec (eb_next b) index k t m dv dv Unselected.
+
+(* the three outcomes of insert, in terms of the records *)
+Lemma ebuf_insert_cases b index k t m dv :
+  ebuf_inv b ->
+  let '(b', res) := ebuf_insert b index k t m dv in
+  let rec := new_rec b index k t m dv in
+  (cfg_max (eb_cfg b) t = 0 /\ b' = b /\ res = InsTypeMaxIsZero)
+  \/ (cfg_max (eb_cfg b) t <> 0 /\ countN (in_type t) (eb_events b) < cfg_max (eb_cfg b) t
+      /\ res = InsOk (eb_next b) /\ eb_events b' = eb_events b ++ [rec]
+      /\ eb_total b' = cnt_inc k t (eb_total b) /\ eb_written b' = eb_written b
+      /\ eb_overflown b' = eb_overflown b /\ eb_next b' = eb_next b + 1 /\ eb_cfg b' = eb_cfg b)
+  \/ (cfg_max (eb_cfg b) t <> 0 /\ countN (in_type t) (eb_events b) = cfg_max (eb_cfg b) t
+      /\ exists old pre post,
+          eb_events b = pre ++ old :: post /\ Forall (fun r => in_type t r = false) pre
+          /\ r_type old = t /\ res = InsOverflow (eb_next b) (r_id old)
+          /\ eb_events b' = pre ++ post ++ [rec]
+          /\ eb_total b' = cnt_inc k t (cnt_dec (r_class old) t (eb_total b))
+          /\ eb_written b' = (if is_written old then cnt_dec (r_class old) t (eb_written b) else eb_written b)
+          /\ eb_overflown b' = true /\ eb_next b' = eb_next b + 1 /\ eb_cfg b' = eb_cfg b).
+Proof.
+  intros Hinv. unfold ebuf_insert.
+  destruct (cfg_max (eb_cfg b) t =? 0) eqn:Emax.
+  { left. repeat split. apply N.eqb_eq; exact Emax. }
+  apply N.eqb_neq in Emax.
+  destruct (cnt_type (eb_total b) t =? cfg_max (eb_cfg b) t) eqn:Efull.
+  - apply N.eqb_eq in Efull. rewrite (inv_total_type b Hinv) in Efull.
+    destruct (remove_first_type t (eb_events b)) as [[old rest]|] eqn:Er.
+    + right; right. destruct (remove_first_type_some _ _ _ _ Er) as (pre & post & Hl & -> & Ht & Hpre).
+      split; [exact Emax|]. split; [exact Efull|].
+      exists old, pre, post. cbn [eb_events eb_total eb_written eb_overflown eb_next eb_cfg].
+      rewrite <- app_assoc. repeat split; try assumption.
+      unfold is_written. destruct (r_state old); reflexivity.
+    + apply remove_first_type_none in Er. lia.
+  - right; left. apply N.eqb_neq in Efull. rewrite (inv_total_type b Hinv) in Efull.
+    pose proof (inv_cap b Hinv t). cbn [eb_events eb_total eb_written eb_overflown eb_next eb_cfg].
+    repeat split; try assumption; lia.
+Qed.
+
+Lemma in_class_new b i k t m dv k' : in_class k' (new_rec b i k t m dv) = eclass_eqb k k'.
+Proof. reflexivity. Qed.
+Lemma in_type_new b i k t m dv t' : in_type t' (new_rec b i k t m dv) = ptype_eqb t t'.
+Proof. reflexivity. Qed.
+
+Lemma wclass_new b i k t m dv k' : wclass k' (new_rec b i k t m dv) = false.
+Proof. unfold wclass, is_written. cbn. apply andb_false_r. Qed.
+Lemma wtype_new b i k t m dv t' : wtype t' (new_rec b i k t m dv) = false.
+Proof. unfold wtype, is_written. cbn. apply andb_false_r. Qed.
+
+Lemma insert_preserves b index k t m dv :
+  ebuf_inv b -> ebuf_inv (fst (ebuf_insert b index k t m dv)).
+Proof.
+  intros Hinv. pose proof (ebuf_insert_cases b index k t m dv Hinv) as H.
+  destruct (ebuf_insert b index k t m dv) as [b' res]. cbn [fst].
+  destruct H as [(_ & -> & _)|[H|H]]; [exact Hinv| |].
+  - destruct H as (Hmax & Hlt & _ & Hev & Htot & Hwr & _ & Hnext & Hcfg).
+    destruct Hinv as [I1 I2 I3 I4 I5 I6 I7].
+    constructor; rewrite ?Hev, ?Htot, ?Hwr, ?Hnext, ?Hcfg.
+    + intro k'. rewrite cnt_class_inc, countN_app, I1. cbn [countN]. rewrite in_class_new. lia.
+    + intro t'. rewrite cnt_type_inc, countN_app, I2. cbn [countN]. rewrite in_type_new. lia.
+    + intro k'. rewrite countN_app, I3. cbn [countN]. rewrite wclass_new. lia.
+    + intro t'. rewrite countN_app, I4. cbn [countN]. rewrite wtype_new. lia.
+    + intro t'. rewrite countN_app. cbn [countN]. rewrite in_type_new.
+      destruct (ptype_eqb t t') eqn:E; [apply ptype_eqb_eq in E; subst t'; lia|pose proof (I5 t'); lia].
+    + apply sorted_app_last; [exact I6|]. eapply Forall_impl; [|exact I7]. intros r Hr. exact Hr.
+    + apply Forall_app. split; [eapply Forall_impl; [|exact I7]; cbn; intros; lia|].
+      constructor; [cbn; lia|constructor].
+  - destruct H as (Hmax & Hfull & old & pre & post & Hl & Hpre & Hto & _ & Hev & Htot & Hwr & _ & Hnext & Hcfg).
+    destruct Hinv as [I1 I2 I3 I4 I5 I6 I7]. rewrite Hl in *.
+    assert (Hcls : in_class (r_class old) old = true) by (unfold in_class; apply eclass_eqb_refl).
+    assert (Htyp : in_type t old = true) by (unfold in_type; rewrite Hto; apply ptype_eqb_refl).
+    constructor; rewrite ?Hev, ?Htot, ?Hnext, ?Hcfg.
+    + intro k'. rewrite cnt_class_inc, cnt_class_dec, I1, !countN_app. cbn [countN].
+      rewrite in_class_new. change (in_class k' old) with (eclass_eqb (r_class old) k').
+      destruct (eclass_eqb (r_class old) k'), (eclass_eqb k k'); lia.
+    + intro t'. rewrite cnt_type_inc, cnt_type_dec, I2, !countN_app. cbn [countN].
+      rewrite in_type_new. change (in_type t' old) with (ptype_eqb (r_type old) t'). rewrite Hto.
+      destruct (ptype_eqb t t'); lia.
+    + intro k'. rewrite Hwr, !countN_app. cbn [countN]. rewrite wclass_new.
+      pose proof (I3 k') as H3. rewrite !countN_app in H3. cbn [countN] in H3.
+      change (wclass k' old) with (eclass_eqb (r_class old) k' && is_written old) in H3.
+      destruct (is_written old) eqn:Ew.
+      * rewrite cnt_class_dec, H3. rewrite andb_true_r.
+        destruct (eclass_eqb (r_class old) k'); lia.
+      * rewrite andb_false_r in H3. lia.
+    + intro t'. rewrite Hwr, !countN_app. cbn [countN]. rewrite wtype_new.
+      pose proof (I4 t') as H4. rewrite !countN_app in H4. cbn [countN] in H4.
+      change (wtype t' old) with (ptype_eqb (r_type old) t' && is_written old) in H4. rewrite Hto in H4.
+      destruct (is_written old) eqn:Ew.
+      * rewrite cnt_type_dec, H4. rewrite andb_true_r.
+        destruct (ptype_eqb t t'); lia.
+      * rewrite andb_false_r in H4. lia.
+    + intro t'. rewrite !countN_app. cbn [countN]. rewrite in_type_new.
+      pose proof (I5 t') as H5. rewrite !countN_app in H5, Hfull. cbn [countN] in H5, Hfull.
+      change (in_type t' old) with (ptype_eqb (r_type old) t') in H5. rewrite Hto in H5. rewrite Htyp in Hfull.
+      destruct (ptype_eqb t t') eqn:E; [apply ptype_eqb_eq in E; subst t'; lia|lia].
+    + rewrite app_assoc. apply sorted_app_last; [eapply sorted_remove_mid; exact I6|].
+      apply Forall_remove_mid in I7. eapply Forall_impl; [|exact I7]. intros r Hr. exact Hr.
+    + rewrite app_assoc. apply Forall_app. split.
+      * apply Forall_remove_mid in I7. eapply Forall_impl; [|exact I7]. cbn; intros; lia.
+      * constructor; [cbn; lia|constructor].
+Qed.
+
+(* ---------------------------------------------------------------------------------------------- *)
+(* select *)
+
+Definition sel_ok (sel : erec -> option erec) : Prop :=
+  forall r r', sel r = Some r' -> core_eq r r' /\ r_state r' = r_state r.
+
+Lemma sel_class_ok c1 c2 c3 : sel_ok (sel_class c1 c2 c3).
+Proof.
+  intros r r' H. unfold sel_class in H. destruct (classes_match c1 c2 c3 (r_class r)); [|discriminate].
+  inversion H; subst. split; [apply core_eq_set_svar, core_eq_refl|reflexivity].
+Qed.
+
+Lemma sel_type_ok t v : sel_ok (sel_type t v).
+Proof.
+  intros r r' H. unfold sel_type in H. destruct (ptype_eqb (r_type r) t); [|discriminate].
+  inversion H; subst. split; [apply core_eq_set_svar, core_eq_refl|reflexivity].
+Qed.
+
+Lemma select_loop_core sel lim l : sel_ok sel ->
+  Forall2 (fun r r' => core_eq r r' /\ is_written r' = is_written r) l (fst (select_loop sel lim l)).
+Proof.
+  intros Hsel. revert lim. induction l as [|r l IH]; intro lim; cbn [select_loop fst]; [constructor|].
+  destruct (limit_take lim).
+  - destruct (estate_eqb (r_state r) Unselected) eqn:Eu.
+    + destruct (sel r) as [r'|] eqn:Es.
+      * specialize (IH (limit_pred lim)). destruct (select_loop sel (limit_pred lim) l) as [tl' n]. cbn [fst] in *.
+        constructor; [|exact IH]. destruct (Hsel _ _ Es) as [Hc _]. split; [exact Hc|].
+        unfold is_written. cbn. destruct (r_state r); cbn in Eu |- *; try reflexivity; discriminate.
+      * specialize (IH lim). destruct (select_loop sel lim l) as [tl' n]. cbn [fst] in *.
+        constructor; [split; [apply core_eq_refl|reflexivity]|exact IH].
+    + specialize (IH lim). destruct (select_loop sel lim l) as [tl' n]. cbn [fst] in *.
+      constructor; [split; [apply core_eq_refl|reflexivity]|exact IH].
+  - apply Forall2_refl. intro x. split; [apply core_eq_refl|reflexivity].
+Qed.
+
+Lemma wclass_core k l l' :
+  Forall2 (fun r r' => core_eq r r' /\ is_written r' = is_written r) l l' ->
+  countN (wclass k) l = countN (wclass k) l'.
+Proof.
+  intros H. apply countN_Forall2. eapply Forall2_impl; [|exact H].
+  intros r r' ((_ & _ & Hc & _) & Hw). unfold wclass, in_class. rewrite Hc, Hw. reflexivity.
+Qed.
+
+Lemma wtype_core t l l' :
+  Forall2 (fun r r' => core_eq r r' /\ is_written r' = is_written r) l l' ->
+  countN (wtype t) l = countN (wtype t) l'.
+Proof.
+  intros H. apply countN_Forall2. eapply Forall2_impl; [|exact H].
+  intros r r' ((_ & _ & _ & Ht & _) & Hw). unfold wtype, in_type. rewrite Ht, Hw. reflexivity.
+Qed.
+
+Lemma Forall2_fst {A} (P Q : A -> A -> Prop) l l' :
+  Forall2 (fun a b => P a b /\ Q a b) l l' -> Forall2 P l l'.
+Proof. intros H. eapply Forall2_impl; [|exact H]. intros a b [Hp _]; exact Hp. Qed.
+
+(* replacing the records by records that differ in state / selected variation but keep the set of
+   Written ones keeps the invariant *)
+Lemma inv_with_events b evs :
+  ebuf_inv b ->
+  Forall2 (fun r r' => core_eq r r' /\ is_written r' = is_written r) (eb_events b) evs ->
+  ebuf_inv (with_events b evs).
+Proof.
+  intros [I1 I2 I3 I4 I5 I6 I7] H. pose proof (Forall2_fst _ _ _ _ H) as Hc.
+  constructor; cbn [with_events eb_events eb_total eb_written eb_cfg eb_next].
+  - intro k. rewrite I1. apply core_in_class; exact Hc.
+  - intro t. rewrite I2. apply core_in_type; exact Hc.
+  - intro k. rewrite I3. apply wclass_core; exact H.
+  - intro t. rewrite I4. apply wtype_core; exact H.
+  - intro t. rewrite <- (core_in_type t _ _ Hc). apply I5.
+  - eapply core_sorted; eassumption.
+  - eapply core_below; eassumption.
+Qed.
+
+Lemma select_class_preserves b c1 c2 c3 lim :
+  ebuf_inv b -> ebuf_inv (fst (ebuf_select_by_class b c1 c2 c3 lim)).
+Proof.
+  intros Hinv. unfold ebuf_select_by_class.
+  pose proof (select_loop_core (sel_class c1 c2 c3) lim (eb_events b) (sel_class_ok c1 c2 c3)) as H.
+  destruct (select_loop (sel_class c1 c2 c3) lim (eb_events b)) as [evs n]. cbn [fst] in *.
+  apply inv_with_events; assumption.
+Qed.
+
+Lemma select_type_preserves b t v lim :
+  ebuf_inv b -> ebuf_inv (fst (ebuf_select_by_type b t v lim)).
+Proof.
+  intros Hinv. unfold ebuf_select_by_type.
+  pose proof (select_loop_core (sel_type t v) lim (eb_events b) (sel_type_ok t v)) as H.
+  destruct (select_loop (sel_type t v) lim (eb_events b)) as [evs n]. cbn [fst] in *.
+  apply inv_with_events; assumption.
+Qed.
+
+
+Lemma wclass_cons_w k r l : is_written r = true ->
+  countN (wclass k) (r :: l) = (if eclass_eqb (r_class r) k then 1 else 0) + countN (wclass k) l.
+Proof. intros H. cbn [countN]. unfold wclass at 1, in_class. rewrite H, andb_true_r. reflexivity. Qed.
+Lemma wclass_cons_u k r l : is_written r = false -> countN (wclass k) (r :: l) = countN (wclass k) l.
+Proof. intros H. cbn [countN]. unfold wclass at 1. rewrite H, andb_false_r. reflexivity. Qed.
+Lemma wtype_cons_w t r l : is_written r = true ->
+  countN (wtype t) (r :: l) = (if ptype_eqb (r_type r) t then 1 else 0) + countN (wtype t) l.
+Proof. intros H. cbn [countN]. unfold wtype at 1, in_type. rewrite H, andb_true_r. reflexivity. Qed.
+Lemma wtype_cons_u t r l : is_written r = false -> countN (wtype t) (r :: l) = countN (wtype t) l.
+Proof. intros H. cbn [countN]. unfold wtype at 1. rewrite H, andb_false_r. reflexivity. Qed.
+
+(* ---------------------------------------------------------------------------------------------- *)
+(* write *)
+
+Definition is_selected (r : erec) : bool := estate_eqb (r_state r) Selected.
+Definition selected (l : list erec) : list erec := filter is_selected l.
+
+(* the first n Selected records become Written *)
+Fixpoint mark_written (n : nat) (l : list erec) : list erec :=
+  match l with
+  | [] => []
+  | r :: tl =>
+    if is_selected r then
+      match n with
+      | O => r :: tl
+      | S k => set_state r Written :: mark_written k tl
+      end
+    else r :: mark_written n tl
+  end.
+
+(* feeding records to the writer until one does not fit *)
+Fixpoint ew_feed (w : ewriter) (l : list erec) : option ewriter :=
+  match l with
+  | [] => Some w
+  | r :: tl => match ew_try w r with Some w' => ew_feed w' tl | None => None end
+  end.
+
+Lemma write_loop_spec l : forall w cnt l' w' cnt' n c,
+  write_loop l w cnt = (l', w', cnt', n, c) ->
+  let k := N.to_nat n in
+  (k <= length (selected l))%nat
+  /\ l' = mark_written k l
+  /\ ew_feed w (firstn k (selected l)) = Some w'
+  /\ (c = true -> k = length (selected l))
+  /\ (c = false -> exists r, nth_error (selected l) k = Some r /\ ew_try w' r = None).
+Proof.
+  induction l as [|r l IH]; intros w cnt l' w' cnt' n c H; cbn [write_loop] in H.
+  - injection H as <- <- <- <- <-. cbn. repeat split; try lia; intros; discriminate.
+  - unfold selected in *. cbn [filter mark_written]. fold (is_selected r) in H.
+    destruct (is_selected r) eqn:Es.
+    + destruct (ew_try w r) as [w1|] eqn:Et.
+      * destruct (write_loop l w1 (cnt_inc (r_class r) (r_type r) cnt)) as [[[[tl' w''] cnt''] n'] c'] eqn:El.
+        injection H as <- <- <- <- <-.
+        destruct (IH _ _ _ _ _ _ _ El) as (H1 & H2 & H3 & H4 & H5).
+        replace (N.to_nat (n' + 1)) with (S (N.to_nat n')) by lia.
+        cbn [length firstn ew_feed nth_error]. rewrite Et.
+        repeat split; [lia|rewrite H2; reflexivity|exact H3|intro Hc; rewrite (H4 Hc); reflexivity|exact H5].
+      * injection H as <- <- <- <- <-. cbn [N.to_nat length firstn ew_feed nth_error].
+        repeat split; [lia|intros; discriminate|]. intros _. exists r. split; [reflexivity|exact Et].
+    + destruct (write_loop l w cnt) as [[[[tl' w''] cnt''] n'] c'] eqn:El.
+      injection H as <- <- <- <- <-.
+      destruct (IH _ _ _ _ _ _ _ El) as (H1 & H2 & H3 & H4 & H5).
+      repeat split; [exact H1|rewrite H2; reflexivity|exact H3|exact H4|exact H5].
+Qed.
+
+(* counters during the write: what is added to `written` is what became Written *)
+Lemma write_loop_counts l : forall w cnt l' w' cnt' n c,
+  write_loop l w cnt = (l', w', cnt', n, c) ->
+  (forall r, In r l -> is_selected r = true -> is_written r = false) ->
+  (forall k, cnt_class cnt' k + countN (wclass k) l = cnt_class cnt k + countN (wclass k) l')
+  /\ (forall t, cnt_type cnt' t + countN (wtype t) l = cnt_type cnt t + countN (wtype t) l')
+  /\ Forall2 core_eq l l'.
+Proof.
+  induction l as [|r l IH]; intros w cnt l' w' cnt' n c H Hsel; cbn [write_loop] in H.
+  - injection H as <- <- <- <- <-. repeat split; try constructor.
+  - fold (is_selected r) in H. destruct (is_selected r) eqn:Es.
+    + destruct (ew_try w r) as [w1|] eqn:Et.
+      * destruct (write_loop l w1 (cnt_inc (r_class r) (r_type r) cnt)) as [[[[tl' w''] cnt''] n'] c'] eqn:El.
+        injection H as <- <- <- <- <-.
+        destruct (IH _ _ _ _ _ _ _ El) as (H1 & H2 & H3); [intros x Hx; apply Hsel; right; exact Hx|].
+        pose proof (Hsel r (or_introl eq_refl) Es) as Hw.
+        repeat split.
+        -- intro k. specialize (H1 k). rewrite cnt_class_inc in H1.
+           rewrite (wclass_cons_u k r l Hw), (wclass_cons_w k (set_state r Written) tl' eq_refl).
+           cbn [set_state r_class]. lia.
+        -- intro t. specialize (H2 t). rewrite cnt_type_inc in H2.
+           rewrite (wtype_cons_u t r l Hw), (wtype_cons_w t (set_state r Written) tl' eq_refl).
+           cbn [set_state r_type]. lia.
+        -- constructor; [apply core_eq_set_state, core_eq_refl|exact H3].
+      * injection H as <- <- <- <- <-. repeat split; try lia. apply Forall2_refl, core_eq_refl.
+    + destruct (write_loop l w cnt) as [[[[tl' w''] cnt''] n'] c'] eqn:El.
+      injection H as <- <- <- <- <-.
+      destruct (IH _ _ _ _ _ _ _ El) as (H1 & H2 & H3); [intros x Hx; apply Hsel; right; exact Hx|].
+      repeat split.
+      * intro k. specialize (H1 k). cbn [countN]. lia.
+      * intro t. specialize (H2 t). cbn [countN]. lia.
+      * constructor; [apply core_eq_refl|exact H3].
+Qed.
+
+Lemma selected_not_written r : is_selected r = true -> is_written r = false.
+Proof. unfold is_selected, is_written. destruct (r_state r); cbn; intros; try reflexivity; discriminate. Qed.
+
+Lemma write_preserves b budget : ebuf_inv b -> ebuf_inv (fst (ebuf_write_hdrs b budget)).
+Proof.
+  intros [I1 I2 I3 I4 I5 I6 I7]. unfold ebuf_write_hdrs.
+  destruct (write_loop (eb_events b) (ew_new budget) (eb_written b)) as [[[[evs w] cnt] n] c] eqn:El.
+  cbn [fst]. destruct (write_loop_counts _ _ _ _ _ _ _ _ El) as (H1 & H2 & H3).
+  { intros r _ Hr. apply selected_not_written; exact Hr. }
+  constructor; cbn [eb_events eb_total eb_written eb_cfg eb_next].
+  - intro k. rewrite I1. apply core_in_class; exact H3.
+  - intro t. rewrite I2. apply core_in_type; exact H3.
+  - intro k. specialize (H1 k). rewrite I3 in H1. lia.
+  - intro t. specialize (H2 t). rewrite I4 in H2. lia.
+  - intro t. rewrite <- (core_in_type t _ _ H3). apply I5.
+  - eapply core_sorted; eassumption.
+  - eapply core_below; eassumption.
+Qed.
+
+(* ---------------------------------------------------------------------------------------------- *)
+(* clear_written *)
+
+Definition not_written (r : erec) : bool := negb (is_written r).
+
+Lemma clear_loop_spec l : forall total l' total' ids,
+  clear_loop l total = (l', total', ids) ->
+  l' = filter not_written l /\ ids = map r_id (filter is_written l).
+Proof.
+  induction l as [|r l IH]; intros total l' total' ids H; cbn [clear_loop] in H.
+  - injection H as <- <- <-. split; reflexivity.
+  - cbn [filter]. unfold not_written at 1. destruct (is_written r) eqn:Ew; cbn [negb].
+    + destruct (clear_loop l (cnt_dec (r_class r) (r_type r) total)) as [[tl' t'] ids'] eqn:El.
+      injection H as <- <- <-. destruct (IH _ _ _ _ El) as [-> ->]. split; reflexivity.
+    + destruct (clear_loop l total) as [[tl' t'] ids'] eqn:El.
+      injection H as <- <- <-. destruct (IH _ _ _ _ El) as [-> ->]. split; reflexivity.
+Qed.
+
+Lemma clear_loop_counts l : forall total l' total' ids,
+  clear_loop l total = (l', total', ids) ->
+  (forall k, countN (wclass k) l <= cnt_class total k) ->
+  (forall t, countN (wtype t) l <= cnt_type total t) ->
+  (forall k, cnt_class total' k + countN (wclass k) l = cnt_class total k)
+  /\ (forall t, cnt_type total' t + countN (wtype t) l = cnt_type total t).
+Proof.
+  induction l as [|r l IH]; intros total l' total' ids H Hk Ht; cbn [clear_loop] in H.
+  - injection H as <- <- <-. split; intros; cbn [countN]; lia.
+  - destruct (is_written r) eqn:Ew.
+    + destruct (clear_loop l (cnt_dec (r_class r) (r_type r) total)) as [[tl' t'] ids'] eqn:El.
+      injection H as <- <- <-.
+      assert (Hk' : forall k, countN (wclass k) l <= cnt_class (cnt_dec (r_class r) (r_type r) total) k).
+      { intro k. specialize (Hk k). rewrite (wclass_cons_w k r l Ew) in Hk.
+        rewrite cnt_class_dec. destruct (eclass_eqb (r_class r) k); lia. }
+      assert (Ht' : forall t, countN (wtype t) l <= cnt_type (cnt_dec (r_class r) (r_type r) total) t).
+      { intro t. specialize (Ht t). rewrite (wtype_cons_w t r l Ew) in Ht.
+        rewrite cnt_type_dec. destruct (ptype_eqb (r_type r) t); lia. }
+      destruct (IH _ _ _ _ El Hk' Ht') as [H1 H2]. split.
+      * intro k. specialize (H1 k). specialize (Hk k). rewrite (wclass_cons_w k r l Ew) in *.
+        rewrite cnt_class_dec in H1. destruct (eclass_eqb (r_class r) k); lia.
+      * intro t. specialize (H2 t). specialize (Ht t). rewrite (wtype_cons_w t r l Ew) in *.
+        rewrite cnt_type_dec in H2. destruct (ptype_eqb (r_type r) t); lia.
+    + destruct (clear_loop l total) as [[tl' t'] ids'] eqn:El.
+      injection H as <- <- <-.
+      assert (Hk' : forall k, countN (wclass k) l <= cnt_class total k).
+      { intro k. specialize (Hk k). rewrite (wclass_cons_u k r l Ew) in Hk. exact Hk. }
+      assert (Ht' : forall t, countN (wtype t) l <= cnt_type total t).
+      { intro t. specialize (Ht t). rewrite (wtype_cons_u t r l Ew) in Ht. exact Ht. }
+      destruct (IH _ _ _ _ El Hk' Ht') as [H1 H2]. split.
+      * intro k. specialize (H1 k). rewrite (wclass_cons_u k r l Ew). exact H1.
+      * intro t. specialize (H2 t). rewrite (wtype_cons_u t r l Ew). exact H2.
+Qed.
+
+Lemma Forall_filter {A} (P : A -> Prop) f l : Forall P l -> Forall P (filter f l).
+Proof.
+  intros H. apply Forall_forall. intros x Hx. apply filter_In in Hx. rewrite Forall_forall in H. apply H, Hx.
+Qed.
+
+Lemma clear_preserves b : ebuf_inv b -> ebuf_inv (fst (ebuf_clear_written b)).
+Proof.
+  intros [I1 I2 I3 I4 I5 I6 I7]. unfold ebuf_clear_written.
+  destruct (clear_loop (eb_events b) (eb_total b)) as [[evs total] ids] eqn:El. cbn [fst].
+  destruct (clear_loop_spec _ _ _ _ _ El) as [-> _].
+  destruct (clear_loop_counts _ _ _ _ _ El) as [H1 H2].
+  { intro k. rewrite I1. apply countN_le. intros r Hr. unfold wclass in Hr. apply andb_prop in Hr. apply Hr. }
+  { intro t. rewrite I2. apply countN_le. intros r Hr. unfold wtype in Hr. apply andb_prop in Hr. apply Hr. }
+  constructor; cbn [eb_events eb_total eb_written eb_cfg eb_next].
+  - intro k. specialize (H1 k). rewrite I1 in H1.
+    rewrite (countN_split (in_class k) is_written (eb_events b)) in H1.
+    fold not_written in H1. fold (wclass k) in H1. lia.
+  - intro t. specialize (H2 t). rewrite I2 in H2.
+    rewrite (countN_split (in_type t) is_written (eb_events b)) in H2.
+    fold not_written in H2. fold (wtype t) in H2. lia.
+  - intro k. rewrite cnt_class_zero. symmetry. apply countN_filter_false.
+    intros r Hr. unfold wclass. unfold not_written in Hr. destruct (is_written r); [discriminate|apply andb_false_r].
+  - intro t. rewrite cnt_type_zero. symmetry. apply countN_filter_false.
+    intros r Hr. unfold wtype. unfold not_written in Hr. destruct (is_written r); [discriminate|apply andb_false_r].
+  - intro t. specialize (I5 t). rewrite (countN_split (in_type t) is_written (eb_events b)) in I5.
+    fold not_written in I5. lia.
+  - apply sorted_filter; exact I6.
+  - apply Forall_filter; exact I7.
+Qed.
+
+(* ---------------------------------------------------------------------------------------------- *)
+(* reset *)
+
+Lemma core_map_set_state l s : Forall2 core_eq l (map (fun r => set_state r s) l).
+Proof. induction l as [|r l IH]; cbn [map]; constructor; [apply core_eq_set_state, core_eq_refl|exact IH]. Qed.
+
+Lemma reset_preserves b : ebuf_inv b -> ebuf_inv (ebuf_reset b).
+Proof.
+  intros [I1 I2 I3 I4 I5 I6 I7].
+  pose proof (core_map_set_state (eb_events b) Unselected) as Hc.
+  constructor; cbn [ebuf_reset eb_events eb_total eb_written eb_cfg eb_next].
+  - intro k. rewrite I1. apply core_in_class; exact Hc.
+  - intro t. rewrite I2. apply core_in_type; exact Hc.
+  - intro k. rewrite cnt_class_zero. symmetry. apply countN_zero. intros r Hr. apply in_map_iff in Hr.
+    destruct Hr as (x & <- & _). unfold wclass, is_written. cbn. apply andb_false_r.
+  - intro t. rewrite cnt_type_zero. symmetry. apply countN_zero. intros r Hr. apply in_map_iff in Hr.
+    destruct Hr as (x & <- & _). unfold wtype, is_written. cbn. apply andb_false_r.
+  - intro t. rewrite <- (core_in_type t _ _ Hc). apply I5.
+  - eapply core_sorted; eassumption.
+  - eapply core_below; eassumption.
+Qed.
+
+(* ---------------------------------------------------------------------------------------------- *)
+(* every reachable state satisfies the invariant *)
+
+Lemma new_inv cfg : ebuf_inv (ebuf_new cfg).
+Proof.
+  constructor; cbn [ebuf_new eb_events eb_total eb_written eb_cfg eb_next countN]; intros;
+    rewrite ?cnt_class_zero, ?cnt_type_zero; try reflexivity; try constructor. lia.
+Qed.
+
+Lemma step_preserves b op : ebuf_inv b -> ebuf_inv (ebuf_step b op).
+Proof.
+  intros H. destruct op; cbn [ebuf_step].
+  - apply insert_preserves; exact H.
+  - apply select_class_preserves; exact H.
+  - apply select_type_preserves; exact H.
+  - apply write_preserves; exact H.
+  - apply clear_preserves; exact H.
+  - apply reset_preserves; exact H.
+Qed.
+
+Lemma run_from_inv ops : forall b, ebuf_inv b -> ebuf_inv (ebuf_run_from b ops).
+Proof.
+  induction ops as [|op ops IH]; intros b H; cbn [ebuf_run_from fold_left]; [exact H|].
+  apply IH, step_preserves, H.
+Qed.
+
+Theorem reachable_inv cfg ops : ebuf_inv (ebuf_run cfg ops).
+Proof. apply run_from_inv, new_inv. Qed.
+
+(* ============================================================================================== *)
+(* THE THEOREMS *)
+
+(* ---- counters ---- *)
+
+Theorem counters_exact : forall cfg ops,
+  let b := ebuf_run cfg ops in
+  (forall k, cnt_class (eb_total b) k = countN (in_class k) (eb_events b))
+  /\ (forall t, cnt_type (eb_total b) t = countN (in_type t) (eb_events b))
+  /\ (forall k, cnt_class (eb_written b) k = countN (fun r => in_class k r && is_written r) (eb_events b))
+  /\ (forall t, cnt_type (eb_written b) t = countN (fun r => in_type t r && is_written r) (eb_events b)).
+Proof.
+  intros cfg ops b. destruct (reachable_inv cfg ops) as [I1 I2 I3 I4 _ _ _].
+  repeat split; assumption.
+Qed.
+
+Theorem capacity_respected : forall cfg ops t,
+  countN (in_type t) (eb_events (ebuf_run cfg ops)) <= cfg_max (eb_cfg (ebuf_run cfg ops)) t.
+Proof. intros cfg ops t. apply (inv_cap _ (reachable_inv cfg ops)). Qed.
+
+Lemma cfg_run_from ops : forall b, eb_cfg (ebuf_run_from b ops) = eb_cfg b.
+Proof.
+  induction ops as [|op ops IH]; intro b; cbn [ebuf_run_from fold_left]; [reflexivity|].
+  fold (ebuf_run_from (ebuf_step b op) ops). rewrite IH.
+  destruct op; cbn [ebuf_step].
+  - unfold ebuf_insert. destruct (cfg_max (eb_cfg b) t =? 0); [reflexivity|].
+    destruct (if cnt_type (eb_total b) t =? cfg_max (eb_cfg b) t then remove_first_type t (eb_events b) else None)
+      as [[old rest]|]; reflexivity.
+  - unfold ebuf_select_by_class. destruct (select_loop _ _ _); reflexivity.
+  - unfold ebuf_select_by_type. destruct (select_loop _ _ _); reflexivity.
+  - unfold ebuf_write_hdrs. destruct (write_loop _ _ _) as [[[[? ?] ?] ?] ?]; reflexivity.
+  - unfold ebuf_clear_written. destruct (clear_loop _ _) as [[? ?] ?]; reflexivity.
+  - reflexivity.
+Qed.
+
+Lemma countN_pos_existsb f l : (0 <? countN f l) = existsb f l.
+Proof.
+  induction l as [|r l IH]; cbn [countN existsb]; [reflexivity|].
+  destruct (f r); cbn [orb]; [|exact IH]. apply N.ltb_lt. lia.
+Qed.
+
+Definition unwritten_of (k : eclass) (r : erec) : bool := in_class k r && negb (is_written r).
+
+Lemma unwritten_count k l :
+  countN (in_class k) l - countN (wclass k) l = countN (unwritten_of k) l
+  /\ countN (wclass k) l <= countN (in_class k) l.
+Proof.
+  induction l as [|r l [IH1 IH2]]; cbn [countN]; [split; reflexivity|].
+  unfold wclass at 1 3, unwritten_of at 1. destruct (in_class k r), (is_written r); cbn [andb negb]; lia.
+Qed.
+
+(* the class bits tell the truth: bit c <-> the buffer holds an event of class c that is not Written *)
+Theorem class_bits_exact : forall cfg ops,
+  let b := ebuf_run cfg ops in
+  ebuf_unwritten_classes b =
+  (existsb (unwritten_of Class1) (eb_events b),
+   existsb (unwritten_of Class2) (eb_events b),
+   existsb (unwritten_of Class3) (eb_events b)).
+Proof.
+  intros cfg ops b. destruct (reachable_inv cfg ops) as [I1 _ I3 _ _ _ _]. fold b in I1, I3.
+  unfold ebuf_unwritten_classes.
+  pose proof (I1 Class1) as A1. pose proof (I1 Class2) as A2. pose proof (I1 Class3) as A3.
+  pose proof (I3 Class1) as B1. pose proof (I3 Class2) as B2. pose proof (I3 Class3) as B3.
+  cbn [cnt_class] in A1, A2, A3, B1, B2, B3. rewrite A1, A2, A3, B1, B2, B3.
+  rewrite (proj1 (unwritten_count Class1 _)), (proj1 (unwritten_count Class2 _)), (proj1 (unwritten_count Class3 _)).
+  rewrite !countN_pos_existsb. reflexivity.
+Qed.
+
+(* `total - written` never underflows (the panic of F3 cannot happen) *)
+Theorem no_underflow : forall cfg ops, ebuf_subtract_ok (ebuf_run cfg ops) = true.
+Proof.
+  intros cfg ops. destruct (reachable_inv cfg ops) as [I1 _ I3 _ _ _ _].
+  unfold ebuf_subtract_ok.
+  pose proof (I1 Class1) as A1. pose proof (I1 Class2) as A2. pose proof (I1 Class3) as A3.
+  pose proof (I3 Class1) as B1. pose proof (I3 Class2) as B2. pose proof (I3 Class3) as B3.
+  cbn [cnt_class] in A1, A2, A3, B1, B2, B3. rewrite A1, A2, A3, B1, B2, B3.
+  pose proof (proj2 (unwritten_count Class1 (eb_events (ebuf_run cfg ops)))).
+  pose proof (proj2 (unwritten_count Class2 (eb_events (ebuf_run cfg ops)))).
+  pose proof (proj2 (unwritten_count Class3 (eb_events (ebuf_run cfg ops)))).
+  rewrite !andb_true_iff, !N.leb_le. repeat split; assumption.
+Qed.
+
+(* ---- ids ---- *)
+
+(* ids handed out by the inserts of a run, in order *)
+Definition created_of (b : ebuf) (op : eop) : list N :=
+  match op with
+  | OpInsert i k t m dv =>
+    match snd (ebuf_insert b i k t m dv) with
+    | InsOk id => [id]
+    | InsOverflow id _ => [id]
+    | InsTypeMaxIsZero => []
+    end
+  | _ => []
+  end.
+
+Fixpoint created_ids (b : ebuf) (ops : list eop) : list N :=
+  match ops with
+  | [] => []
+  | op :: tl => created_of b op ++ created_ids (ebuf_step b op) tl
+  end.
+
+Fixpoint nseq (start : N) (n : nat) : list N :=
+  match n with O => [] | S k => start :: nseq (start + 1) k end.
+
+Lemma step_next b op : ebuf_inv b ->
+  eb_next (ebuf_step b op) = eb_next b + N.of_nat (length (created_of b op))
+  /\ created_of b op = nseq (eb_next b) (length (created_of b op)).
+Proof.
+  intros Hinv. destruct op; cbn [ebuf_step created_of length nseq]; try (split; [|reflexivity]).
+  - pose proof (ebuf_insert_cases b index k t m dv Hinv) as H.
+    destruct (ebuf_insert b index k t m dv) as [b' res]. cbn [fst snd].
+    destruct H as [(_ & -> & ->)|[(_ & _ & -> & _ & _ & _ & _ & Hn & _)|(_ & _ & old & pre & post & _ & _ & _ & -> & _ & _ & _ & _ & Hn & _)]];
+      cbn [length nseq]; split; try reflexivity; lia.
+  - unfold ebuf_select_by_class. destruct (select_loop _ _ _). cbn. lia.
+  - unfold ebuf_select_by_type. destruct (select_loop _ _ _). cbn. lia.
+  - unfold ebuf_write_hdrs. destruct (write_loop _ _ _) as [[[[? ?] ?] ?] ?]. cbn. lia.
+  - unfold ebuf_clear_written. destruct (clear_loop _ _) as [[? ?] ?]. cbn. lia.
+  - cbn. lia.
+Qed.
+
+Lemma nseq_app a n m : nseq a n ++ nseq (a + N.of_nat n) m = nseq a (n + m).
+Proof.
+  revert a. induction n as [|n IH]; intro a; cbn [nseq app plus].
+  - replace (a + N.of_nat 0) with a by lia. reflexivity.
+  - f_equal. rewrite <- IH. f_equal. f_equal. lia.
+Qed.
+
+Lemma created_ids_seq ops : forall b, ebuf_inv b ->
+  created_ids b ops = nseq (eb_next b) (length (created_ids b ops)).
+Proof.
+  induction ops as [|op ops IH]; intros b Hinv; cbn [created_ids]; [reflexivity|].
+  destruct (step_next b op Hinv) as [Hn Hc].
+  rewrite app_length, <- nseq_app, <- Hc. f_equal.
+  rewrite (IH _ (step_preserves b op Hinv)) at 1. rewrite Hn. reflexivity.
+Qed.
+
+(* ids are unique and monotone: the inserts of a run hand out exactly 0, 1, 2, ... in this order;
+   the buffer is sorted by id (insertion order = id order) and every id in it is below `next` *)
+Theorem ids_unique_monotone : forall cfg ops,
+  created_ids (ebuf_new cfg) ops = nseq 0 (length (created_ids (ebuf_new cfg) ops))
+  /\ StronglySorted (fun a b => r_id a < r_id b) (eb_events (ebuf_run cfg ops))
+  /\ Forall (fun r => r_id r < eb_next (ebuf_run cfg ops)) (eb_events (ebuf_run cfg ops)).
+Proof.
+  intros cfg ops. split; [apply (created_ids_seq ops (ebuf_new cfg) (new_inv cfg))|].
+  destruct (reachable_inv cfg ops) as [_ _ _ _ _ I6 I7]. split; assumption.
+Qed.
+
+(* ---- insert ---- *)
+
+(* insert with per-type overflow: below capacity the record is appended; at capacity the OLDEST
+   record of the SAME type is discarded and reported, whatever its state, and the flag is raised *)
+Theorem insert_overflow_discards_oldest_same_type : forall cfg ops index k t m dv,
+  let b := ebuf_run cfg ops in
+  let rec := mkRec (eb_next b) index k t m dv dv Unselected in
+  let b' := fst (ebuf_insert b index k t m dv) in
+  let res := snd (ebuf_insert b index k t m dv) in
+  (cfg_max cfg t = 0 -> b' = b /\ res = InsTypeMaxIsZero)
+  /\ (cfg_max cfg t <> 0 -> countN (in_type t) (eb_events b) < cfg_max cfg t ->
+      res = InsOk (eb_next b) /\ eb_events b' = eb_events b ++ [rec] /\ eb_overflown b' = eb_overflown b)
+  /\ (cfg_max cfg t <> 0 -> countN (in_type t) (eb_events b) = cfg_max cfg t ->
+      exists old pre post,
+        eb_events b = pre ++ old :: post
+        /\ Forall (fun r => r_type r <> t) pre /\ r_type old = t
+        /\ res = InsOverflow (eb_next b) (r_id old)
+        /\ eb_events b' = pre ++ post ++ [rec]
+        /\ eb_overflown b' = true).
+Proof.
+  intros cfg ops index k t m dv b rec b' res.
+  pose proof (ebuf_insert_cases b index k t m dv (reachable_inv cfg ops)) as H.
+  assert (Hcfg : eb_cfg b = cfg) by (unfold b, ebuf_run; rewrite cfg_run_from; reflexivity).
+  rewrite Hcfg in H. subst b' res. destruct (ebuf_insert b index k t m dv) as [b' res]. cbn [fst snd].
+  destruct H as [(H0 & -> & ->)|[(Hn0 & Hlt & -> & Hev & _ & _ & Hov & _)|(Hn0 & Hfull & old & pre & post & Hl & Hpre & Hto & -> & Hev & _ & _ & Hov & _)]].
+  - repeat split; intros; try reflexivity; contradiction.
+  - repeat split; intros; try contradiction; try assumption; lia.
+  - repeat split; intros; try contradiction; try lia.
+    exists old, pre, post. repeat split; try assumption.
+    eapply Forall_impl; [|exact Hpre]. intros r Hr Heq. unfold in_type in Hr. rewrite Heq, ptype_eqb_refl in Hr. discriminate.
+Qed.
+
+(* ---- clear_written ---- *)
+
+(* release exactly what was written: the ids reported to the application are those of the Written
+   records, in order; exactly these records leave the buffer; nothing else changes state *)
+Theorem clear_written_releases_exactly_written : forall b,
+  let b' := fst (ebuf_clear_written b) in
+  let ids := snd (ebuf_clear_written b) in
+  ids = map r_id (filter is_written (eb_events b))
+  /\ eb_events b' = filter (fun r => negb (is_written r)) (eb_events b).
+Proof.
+  intros b. unfold ebuf_clear_written.
+  destruct (clear_loop (eb_events b) (eb_total b)) as [[evs total] ids] eqn:El. cbn [fst snd eb_events].
+  destruct (clear_loop_spec _ _ _ _ _ El) as [-> ->]. split; reflexivity.
+Qed.
+
+(* ---- reset ---- *)
+
+Theorem reset_unselects_all : forall b,
+  eb_events (ebuf_reset b) = map (fun r => set_state r Unselected) (eb_events b)
+  /\ Forall (fun r => r_state r = Unselected) (eb_events (ebuf_reset b))
+  /\ map r_id (eb_events (ebuf_reset b)) = map r_id (eb_events b)
+  /\ eb_total (ebuf_reset b) = eb_total b /\ eb_overflown (ebuf_reset b) = eb_overflown b.
+Proof.
+  intros b. cbn [ebuf_reset eb_events eb_total eb_overflown]. repeat split.
+  - apply Forall_forall. intros r Hr. apply in_map_iff in Hr. destruct Hr as (x & <- & _). reflexivity.
+  - rewrite map_map. reflexivity.
+Qed.
+
+(* ---- write ---- *)
+
+Definition ew_ok (w : ewriter) : Prop :=
+  match ew_state w with EwProgress _ _ _ => ew_out w <> [] | _ => True end.
+
+Lemma ehdrs_objs_cons h out : ehdrs_objs (h :: out) = ehdrs_objs out ++ rev (eh_objs h).
+Proof. unfold ehdrs_objs. cbn [rev]. rewrite map_app, concat_app. cbn [map concat]. rewrite app_nil_r. reflexivity. Qed.
+
+Lemma ehdrs_objs_push out o : out <> [] -> ehdrs_objs (push_obj out o) = ehdrs_objs out ++ [o].
+Proof.
+  destruct out as [|h tl]; [contradiction|]. intros _. cbn [push_obj].
+  rewrite !ehdrs_objs_cons. cbn [eh_objs rev]. rewrite app_assoc. reflexivity.
+Qed.
+
+Lemma ew_start_objs w r w' : ew_start w r = Some w' ->
+  ehdrs_objs (ew_out w') = ehdrs_objs (ew_out w) ++ [(r, 0)] /\ ew_ok w'.
+Proof.
+  unfold ew_start. destruct (_ <=? ew_rem w); [|discriminate].
+  destruct (evar_gv (rec_wvar r) (r_meas r)) as [g var]. intros H. injection H as <-.
+  cbn [ew_out]. rewrite ehdrs_objs_cons. split; [reflexivity|]. unfold ew_ok. cbn. discriminate.
+Qed.
+
+Lemma ew_try_objs w r w' : ew_ok w -> ew_try w r = Some w' ->
+  (exists d, ehdrs_objs (ew_out w') = ehdrs_objs (ew_out w) ++ [(r, d)]) /\ ew_ok w'.
+Proof.
+  intros Hok. unfold ew_try. unfold ew_ok in Hok.
+  destruct (ew_state w) as [|count cto key|]; [| |discriminate].
+  - intros H. destruct (ew_start_objs _ _ _ H) as [H1 H2]. split; [exists 0; exact H1|exact H2].
+  - destruct (negb (hdr_key_eqb key (rec_key r))).
+    { intros H. destruct (ew_start_objs _ _ _ H) as [H1 H2]. split; [exists 0; exact H1|exact H2]. }
+    destruct (count =? 65535).
+    { intros H. destruct (ew_start_objs _ _ _ H) as [H1 H2]. split; [exists 0; exact H1|exact H2]. }
+    destruct (if evar_uses_cto (rec_wvar r) then cto_offset cto r else Some 0) as [d|].
+    + destruct (_ <=? ew_rem w); [|discriminate]. intros H. injection H as <-. cbn [ew_out].
+      split; [exists d; apply ehdrs_objs_push; exact Hok|]. unfold ew_ok. cbn [ew_state ew_out].
+      destruct (ew_out w); [contradiction|discriminate].
+    + intros H. destruct (ew_start_objs _ _ _ H) as [H1 H2]. split; [exists 0; exact H1|exact H2].
+Qed.
+
+Lemma ew_feed_objs l : forall w w', ew_ok w -> ew_feed w l = Some w' ->
+  map fst (ehdrs_objs (ew_out w')) = map fst (ehdrs_objs (ew_out w)) ++ l /\ ew_ok w'.
+Proof.
+  induction l as [|r l IH]; intros w w' Hok H; cbn [ew_feed] in H.
+  - injection H as <-. rewrite app_nil_r. split; [reflexivity|exact Hok].
+  - destruct (ew_try w r) as [w1|] eqn:Et; [|discriminate].
+    destruct (ew_try_objs _ _ _ Hok Et) as [[d Hd] Hok1].
+    destruct (IH _ _ Hok1 H) as [H1 H2]. split; [|exact H2].
+    rewrite H1, Hd, map_app. cbn [map fst]. rewrite <- app_assoc. reflexivity.
+Qed.
+
+(* write with a byte budget: the records written are a PREFIX, in insertion order, of the Selected
+   records; exactly these become Written, nothing else changes; the prefix is the longest one that
+   fits: either everything selected was written (complete), or the next selected record was refused
+   by the writer in the state reached after the prefix. *)
+Theorem write_oldest_first : forall b budget,
+  let b' := fst (ebuf_write_hdrs b budget) in
+  let r := snd (ebuf_write_hdrs b budget) in
+  let sel := selected (eb_events b) in
+  let k := N.to_nat (wr_count r) in
+  (k <= length sel)%nat
+  /\ eb_events b' = mark_written k (eb_events b)
+  /\ map fst (ehdrs_objs (wr_hdrs r)) = firstn k sel
+  /\ (exists w, ew_feed (ew_new budget) (firstn k sel) = Some w
+                /\ wr_hdrs r = ew_out w /\ wr_rem r = ew_rem w
+                /\ (wr_complete r = false -> exists x, nth_error sel k = Some x /\ ew_try w x = None))
+  /\ (wr_complete r = true <-> k = length sel).
+Proof.
+  intros b budget. unfold ebuf_write_hdrs.
+  destruct (write_loop (eb_events b) (ew_new budget) (eb_written b)) as [[[[evs w] cnt] n] c] eqn:El.
+  cbn [fst snd eb_events wr_count wr_hdrs wr_complete wr_rem].
+  destruct (write_loop_spec _ _ _ _ _ _ _ _ El) as (H1 & H2 & H3 & H4 & H5).
+  assert (Hok : ew_ok (ew_new budget)) by exact I.
+  destruct (ew_feed_objs _ _ _ Hok H3) as [H6 _]. cbn in H6.
+  repeat split; try assumption.
+  - exists w. repeat split; assumption.
+  - intros Hk. destruct c; [reflexivity|]. destruct (H5 eq_refl) as (x & Hx & _).
+    rewrite Hk in Hx. pose proof (proj2 (nth_error_None (selected (eb_events b)) (length (selected (eb_events b)))) (le_n _)) as Hn.
+    rewrite Hn in Hx. discriminate.
+Qed.
+
+(* exact time of CTO objects *)
+
+Lemma evar_eqb_eq a b : evar_eqb a b = true -> a = b.
+Proof. destruct a, b; vm_compute; intro H; try reflexivity; discriminate H. Qed.
+
+Definition obj_time_ok (h : ehdr) (o : erec * N) : Prop :=
+  if evar_uses_cto (rec_wvar (fst o)) then
+    exists sync t0, eh_cto h = Some (sync, t0)
+                    /\ time_or_default (m_time (r_meas (fst o))) = (sync, t0 + snd o) /\ snd o <= 65535
+  else snd o = 0.
+
+Definition hdrs_time_ok (out : list ehdr) : Prop := Forall (fun h => Forall (obj_time_ok h) (eh_objs h)) out.
+
+Definition ew_time_ok (w : ewriter) : Prop :=
+  hdrs_time_ok (ew_out w)
+  /\ match ew_state w with
+     | EwProgress _ cto key =>
+       exists h tl, ew_out w = h :: tl /\ (evar_uses_cto (snd (fst key)) = true -> eh_cto h = Some cto)
+     | _ => True
+     end.
+
+Lemma ew_start_time w r w' : hdrs_time_ok (ew_out w) -> ew_start w r = Some w' -> ew_time_ok w'.
+Proof.
+  intros Hout. unfold ew_start. destruct (_ <=? ew_rem w); [|discriminate].
+  destruct (evar_gv (rec_wvar r) (r_meas r)) as [g var]. intros H. injection H as <-.
+  split; cbn [ew_out ew_state].
+  - constructor; [|exact Hout]. cbn [eh_objs]. constructor; [|constructor].
+    unfold obj_time_ok. cbn [fst snd eh_cto]. destruct (evar_uses_cto (rec_wvar r)); [|reflexivity].
+    destruct (time_or_default (m_time (r_meas r))) as [sync t0] eqn:Et.
+    exists sync, t0. repeat split; [f_equal; lia|lia].
+  - eexists _, _. split; [reflexivity|]. unfold rec_key. cbn [fst snd eh_cto]. intros ->. reflexivity.
+Qed.
+
+Lemma cto_offset_some cto r d : cto_offset cto r = Some d ->
+  time_or_default (m_time (r_meas r)) = (fst cto, snd cto + d) /\ d <= 65535.
+Proof.
+  unfold cto_offset. destruct (time_or_default (m_time (r_meas r))) as [s t]. cbn [fst snd].
+  destruct (Bool.eqb s (fst cto)) eqn:Eb; cbn [negb]; [|discriminate].
+  apply Bool.eqb_prop in Eb. subst s.
+  destruct (t <? snd cto) eqn:El; [discriminate|]. apply N.ltb_ge in El.
+  destruct (65535 <? t - snd cto) eqn:Eh; [discriminate|]. apply N.ltb_ge in Eh.
+  intros H. injection H as <-. split; [f_equal; lia|exact Eh].
+Qed.
+
+Lemma ew_try_time w r w' : ew_time_ok w -> ew_try w r = Some w' -> ew_time_ok w'.
+Proof.
+  intros [Hout Hst]. unfold ew_try.
+  destruct (ew_state w) as [|count cto key|]; [apply ew_start_time; exact Hout| |discriminate].
+  destruct (hdr_key_eqb key (rec_key r)) eqn:Ek; cbn [negb]; [|apply ew_start_time; exact Hout].
+  destruct (count =? 65535); [apply ew_start_time; exact Hout|].
+  destruct Hst as (h & tl & Hw & Hcto).
+  destruct (evar_uses_cto (rec_wvar r)) eqn:Eu.
+  - destruct (cto_offset cto r) as [d|] eqn:Eo; [|apply ew_start_time; exact Hout].
+    destruct (_ <=? ew_rem w); [|discriminate]. intros H. injection H as <-.
+    assert (Hkey : snd (fst key) = rec_wvar r).
+    { destruct key as [[t1 v1] n1]. unfold rec_key, hdr_key_eqb in Ek. cbn [fst snd].
+      apply andb_prop in Ek. destruct Ek as [Ek _]. apply andb_prop in Ek. destruct Ek as [_ Ek].
+      apply evar_eqb_eq; exact Ek. }
+    rewrite Hkey in Hcto. specialize (Hcto Eu).
+    destruct (cto_offset_some _ _ _ Eo) as [Ht Hd].
+    split; cbn [ew_out ew_state]; rewrite Hw; cbn [push_obj].
+    + unfold hdrs_time_ok in *. rewrite Hw in Hout. inversion Hout as [|? ? Hh Htl]; subst.
+      constructor; [|exact Htl]. cbn [eh_objs]. constructor; [|exact Hh].
+      unfold obj_time_ok. cbn [fst snd eh_cto]. rewrite Eu. destruct cto as [sync t0].
+      exists sync, t0. repeat split; assumption.
+    + eexists _, _. split; [reflexivity|]. cbn [eh_cto]. intros _. exact Hcto.
+  - destruct (_ <=? ew_rem w); [|discriminate]. intros H. injection H as <-.
+    assert (Hkey : snd (fst key) = rec_wvar r).
+    { destruct key as [[t1 v1] n1]. unfold rec_key, hdr_key_eqb in Ek. cbn [fst snd].
+      apply andb_prop in Ek. destruct Ek as [Ek _]. apply andb_prop in Ek. destruct Ek as [_ Ek].
+      apply evar_eqb_eq; exact Ek. }
+    split; cbn [ew_out ew_state]; rewrite Hw; cbn [push_obj].
+    + unfold hdrs_time_ok in *. rewrite Hw in Hout. inversion Hout as [|? ? Hh Htl]; subst.
+      constructor; [|exact Htl]. cbn [eh_objs]. constructor; [|exact Hh].
+      unfold obj_time_ok. cbn [fst snd]. rewrite Eu. reflexivity.
+    + eexists _, _. split; [reflexivity|]. cbn [eh_cto]. rewrite Hkey, Eu. discriminate.
+Qed.
+
+Lemma ew_feed_time l : forall w w', ew_time_ok w -> ew_feed w l = Some w' -> ew_time_ok w'.
+Proof.
+  induction l as [|r l IH]; intros w w' Hok H; cbn [ew_feed] in H; [injection H as <-; exact Hok|].
+  destruct (ew_try w r) as [w1|] eqn:Et; [|discriminate].
+  eapply IH; [eapply ew_try_time; eassumption|exact H].
+Qed.
+
+(* every object carries the record's own time: objects of the CTO variations (g2v3, g4v3) sit under
+   a g51 header with the record's synchronisation state and  record time = CTO + 16-bit offset;
+   all other objects have offset 0 (their time, if the variation has one, is the record's, see
+   DbTypes.event_obj). With write_oldest_first: index, value, flags and time of every object are
+   those of the record. *)
+Theorem write_exact_time : forall b budget,
+  Forall (fun h => Forall (obj_time_ok h) (eh_objs h)) (wr_hdrs (snd (ebuf_write_hdrs b budget))).
+Proof.
+  intros b budget. destruct (write_oldest_first b budget) as (_ & _ & _ & (w & Hf & -> & _) & _).
+  assert (H0 : ew_time_ok (ew_new budget)) by (split; [constructor|exact I]).
+  exact (proj1 (ew_feed_time _ _ _ H0 Hf)).
+Qed.
+
+(* ---- overflow flag ---- *)
+
+Definition at_capacity (cfg : ebcfg) (l : list erec) (t : ptype) : bool :=
+  negb (cfg_max cfg t =? 0) && (cfg_max cfg t <=? countN (in_type t) l).
+
+(* the flag is raised by a discard (insert_overflow_discards_oldest_same_type), untouched by select,
+   write and reset, and lowered by clear_written exactly when no type is at capacity afterwards *)
+Theorem overflow_flag_history : forall cfg ops,
+  let b := ebuf_run cfg ops in
+  (forall c1 c2 c3 lim, eb_overflown (fst (ebuf_select_by_class b c1 c2 c3 lim)) = eb_overflown b)
+  /\ (forall t v lim, eb_overflown (fst (ebuf_select_by_type b t v lim)) = eb_overflown b)
+  /\ (forall budget, eb_overflown (fst (ebuf_write_hdrs b budget)) = eb_overflown b)
+  /\ eb_overflown (ebuf_reset b) = eb_overflown b
+  /\ eb_overflown (fst (ebuf_clear_written b))
+     = eb_overflown b && existsb (at_capacity cfg (eb_events (fst (ebuf_clear_written b)))) all_ptypes.
+Proof.
+  intros cfg ops b. repeat split.
+  - intros. unfold ebuf_select_by_class. destruct (select_loop _ _ _); reflexivity.
+  - intros. unfold ebuf_select_by_type. destruct (select_loop _ _ _); reflexivity.
+  - intros. unfold ebuf_write_hdrs. destruct (write_loop _ _ _) as [[[[? ?] ?] ?] ?]; reflexivity.
+  - pose proof (clear_preserves b (reachable_inv cfg ops)) as Hinv.
+    assert (Hcfg : eb_cfg b = cfg) by (unfold b, ebuf_run; rewrite cfg_run_from; reflexivity).
+    pose proof (inv_total_type _ Hinv) as Ht. revert Ht. unfold ebuf_clear_written.
+    destruct (clear_loop (eb_events b) (eb_total b)) as [[evs total] ids]. cbn [fst eb_events eb_total eb_overflown].
+    intros Ht. rewrite Hcfg.
+    assert (Hany : any_full cfg total = existsb (at_capacity cfg evs) all_ptypes).
+    { unfold any_full. induction all_ptypes as [|t ts IHt]; cbn [existsb]; [reflexivity|]. rewrite IHt. f_equal.
+      unfold type_full, at_capacity. rewrite Ht. destruct (cfg_max cfg t =? 0); reflexivity. }
+    rewrite Hany. destruct (existsb (at_capacity cfg evs) all_ptypes), (eb_overflown b); reflexivity.
+Qed.
+
+(* ---- select ---- *)
+
+Definition eligible (sel : erec -> option erec) (r : erec) : bool :=
+  match (if estate_eqb (r_state r) Unselected then sel r else None) with Some _ => true | None => false end.
+
+(* the first n eligible records (Unselected and accepted by the selector) become Selected *)
+Fixpoint select_mark (sel : erec -> option erec) (n : nat) (l : list erec) : list erec :=
+  match l with
+  | [] => []
+  | r :: tl =>
+    match n with
+    | O => l
+    | S k =>
+      match (if estate_eqb (r_state r) Unselected then sel r else None) with
+      | Some r' => set_state r' Selected :: select_mark sel k tl
+      | None => r :: select_mark sel n tl
+      end
+    end
+  end.
+
+Lemma select_mark_0 sel l : select_mark sel 0 l = l.
+Proof. destruct l; reflexivity. Qed.
+
+(* select by class / type with a count limit: the records selected are the FIRST min(limit, #eligible)
+   eligible ones in insertion order; nothing else changes *)
+Theorem select_takes_oldest_up_to_limit : forall sel l lim,
+  let l' := fst (select_loop sel lim l) in
+  let n := snd (select_loop sel lim l) in
+  (forall m, lim = Some m -> n <= m)
+  /\ n <= countN (eligible sel) l
+  /\ (n < countN (eligible sel) l -> lim = Some n)
+  /\ l' = select_mark sel (N.to_nat n) l.
+Proof.
+  intros sel l. induction l as [|r l IH]; intro lim; cbn [select_loop fst snd countN select_mark].
+  - repeat split; intros; try reflexivity; lia.
+  - destruct (limit_take lim) eqn:Elt.
+    + destruct (if estate_eqb (r_state r) Unselected then sel r else None) as [r'|] eqn:Es.
+      * assert (Hel : eligible sel r = true) by (unfold eligible; rewrite Es; reflexivity). rewrite Hel.
+        specialize (IH (limit_pred lim)). destruct (select_loop sel (limit_pred lim) l) as [tl' n'].
+        cbn [fst snd] in *. destruct IH as (H1 & H2 & H3 & H4).
+        replace (N.to_nat (n' + 1)) with (S (N.to_nat n')) by lia.
+        repeat split.
+        -- intros m ->. destruct m as [|p]; [discriminate Elt|]. specialize (H1 (N.pred (N.pos p)) eq_refl). lia.
+        -- lia.
+        -- intros Hlt. assert (Hlt' : n' < countN (eligible sel) l) by lia. specialize (H3 Hlt').
+           destruct lim as [m|]; [|discriminate H3]. cbn [limit_pred] in H3. injection H3 as H3.
+           destruct m as [|p]; [discriminate Elt|]. f_equal. lia.
+        -- rewrite H4. reflexivity.
+      * assert (Hel : eligible sel r = false) by (unfold eligible; rewrite Es; reflexivity). rewrite Hel.
+        specialize (IH lim). destruct (select_loop sel lim l) as [tl' n']. cbn [fst snd] in *.
+        destruct IH as (H1 & H2 & H3 & H4). repeat split; [exact H1|lia|intro; apply H3; lia|].
+        rewrite H4. destruct (N.to_nat n') eqn:En; [rewrite select_mark_0; reflexivity|reflexivity].
+    + cbn [fst snd]. destruct lim as [[|p]|]; try discriminate Elt.
 Show. Abort.
